@@ -11,6 +11,7 @@
 
    No axioms; Print Assumptions at the end. *)
 From Coq Require Import Permutation.
+From Coq Require DecimalString DecimalPos DecimalFacts.
 From Mpath.Model Require Import Base Dec Types GoVal Ast Lexer Parser Printer Funcs Eval.
 From Mpath.Generated Require Import FuncTable Escapes Runes.
 
@@ -222,4 +223,2239 @@ Corollary C09_same_result_top : forall uni eng t t' data,
   struct_eq t t' -> do_top uni eng t data = do_top uni eng t' data.
 Proof.
   intros uni eng t t' data Ht. unfold do_top. apply C09_same_result. constructor. exact Ht.
+Qed.
+
+(* ================================================================== *)
+(** * 2. String literals: escape / unescape                            *)
+(* ================================================================== *)
+
+(** ** Small tools *)
+Lemma str_eqb_eq : forall a b : str, str_eqb a b = true <-> a = b.
+Proof.
+  induction a as [|x a IH]; intros [|y b]; cbn [str_eqb]; split; intros H; try discriminate; try reflexivity.
+  - apply andb_true_iff in H. destruct H as [H1 H2].
+    apply Ascii.eqb_eq in H1. apply IH in H2. subst. reflexivity.
+  - injection H as -> ->. apply andb_true_iff. split; [apply Ascii.eqb_refl|apply IH; reflexivity].
+Qed.
+
+Lemma str_eqb_refl (a : str) : str_eqb a a = true.
+Proof. apply str_eqb_eq. reflexivity. Qed.
+
+Lemma str_mem_In : forall (x : str) l, str_mem x l = true <-> In x l.
+Proof.
+  intros x l. induction l as [|y l IH]; cbn [str_mem In]; [split; [discriminate|tauto]|].
+  rewrite orb_true_iff, str_eqb_eq, IH. split; intros [H|H]; auto.
+Qed.
+
+Fixpoint nodup_b (l : list str) : bool :=
+  match l with [] => true | x :: l' => negb (str_mem x l') && nodup_b l' end.
+
+Lemma nodup_b_sound l : nodup_b l = true -> NoDup l.
+Proof.
+  induction l as [|x l IH]; cbn [nodup_b]; intros H; constructor;
+    apply andb_true_iff in H; destruct H as [H1 H2].
+  - intros Hin. apply str_mem_In in Hin. rewrite Hin in H1. discriminate.
+  - apply IH. exact H2.
+Qed.
+
+(** All 256 bytes: facts about one byte and the generated tables are decided
+    by enumeration, so they are re-checked whenever the tables change. *)
+Definition all_bytes : list ascii := map ascii_of_nat (seq 0 256).
+
+Lemma all_bytes_complete (c : ascii) : In c all_bytes.
+Proof.
+  rewrite <- (ascii_nat_embedding c). apply in_map. apply in_seq.
+  pose proof (nat_ascii_bounded c). lia.
+Qed.
+
+Lemma forall_bytes (P : ascii -> bool) : forallb P all_bytes = true -> forall c, P c = true.
+Proof. intros H c. exact (proj1 (forallb_forall P all_bytes) H c (all_bytes_complete c)). Qed.
+
+Definition bslash : ascii := Eval compute in chr 92.
+Definition dquote : ascii := Eval compute in chr 34.
+Definition lfchar : ascii := Eval compute in chr 10.
+
+(** ** replace_all: unfolding (the definitional fuel never runs out) *)
+Lemma c9_replace_all_fuel_S : forall k c (s f r : str),
+  replace_all_fuel (S k) (c :: s) f r
+  = if has_prefix (c :: s) f
+    then r ++ replace_all_fuel k (skipn (length f) (c :: s)) f r
+    else c :: replace_all_fuel k s f r.
+Proof. reflexivity. Qed.
+
+Lemma c9_replace_all_fuel_enough : forall f r : str, f <> [] ->
+  forall (k1 k2 : nat) (s : str),
+    (length s < k1)%nat -> (length s < k2)%nat ->
+    replace_all_fuel k1 s f r = replace_all_fuel k2 s f r.
+Proof.
+  intros f r Hf. induction k1 as [|k1 IH]; intros k2 s H1 H2; [lia|].
+  destruct k2 as [|k2]; [lia|].
+  destruct s as [|c s]; [reflexivity|].
+  rewrite !c9_replace_all_fuel_S.
+  assert (Hsk : (length (skipn (length f) (c :: s)) < length (c :: s))%nat).
+  { rewrite skipn_length. destruct f as [|d f]; [congruence|]. cbn [length]. lia. }
+  cbn [length] in H1, H2, Hsk.
+  destruct (has_prefix (c :: s) f).
+  - f_equal. apply IH; lia.
+  - f_equal. apply IH; lia.
+Qed.
+
+Lemma c9_replace_all_cons : forall (f r : str) c (s : str), f <> [] ->
+  replace_all (c :: s) f r
+  = if has_prefix (c :: s) f
+    then r ++ replace_all (skipn (length f) (c :: s)) f r
+    else c :: replace_all s f r.
+Proof.
+  intros f r c s Hf. unfold replace_all.
+  change (S (length (c :: s))) with (S (S (length s))).
+  rewrite c9_replace_all_fuel_S.
+  assert (Hsk : (length (skipn (length f) (c :: s)) < length (c :: s))%nat).
+  { rewrite skipn_length. destruct f as [|d f]; [congruence|]. cbn [length]. lia. }
+  cbn [length] in Hsk.
+  destruct (has_prefix (c :: s) f).
+  - f_equal. apply c9_replace_all_fuel_enough; [exact Hf|lia|lia].
+  - reflexivity.
+Qed.
+
+Lemma c9_has_prefix_nil (s : str) : has_prefix s [] = true.
+Proof. destruct s; reflexivity. Qed.
+
+(** one single-byte rule = a byte-wise substitution *)
+Lemma replace_all_byte (x : ascii) (t s : str) :
+  replace_all s [x] t = flat_map (fun c => if Ascii.eqb c x then t else [c]) s.
+Proof.
+  induction s as [|c s IH]; [reflexivity|].
+  rewrite c9_replace_all_cons by discriminate.
+  cbn [has_prefix length skipn flat_map]. rewrite c9_has_prefix_nil, andb_true_r.
+  rewrite (Ascii.eqb_sym c x).
+  destruct (Ascii.eqb x c); rewrite IH; reflexivity.
+Qed.
+
+(** one two-byte rule [b; x] -> [y]: a left-to-right pass *)
+Fixpoint unesc_pass (f : ascii -> option ascii) (s : str) : str :=
+  match s with
+  | [] => []
+  | c :: s' =>
+    match s' with
+    | [] => [c]
+    | d :: s'' =>
+      if Ascii.eqb c bslash then
+        match f d with
+        | Some y => y :: unesc_pass f s''
+        | None => c :: unesc_pass f s'
+        end
+      else c :: unesc_pass f s'
+    end
+  end.
+
+Definition one_rule (x y : ascii) (d : ascii) : option ascii :=
+  if Ascii.eqb d x then Some y else None.
+
+Lemma replace_all_two (x y : ascii) : forall n (s : str), (length s <= n)%nat ->
+  replace_all s [bslash; x] [y] = unesc_pass (one_rule x y) s.
+Proof.
+  induction n as [|n IH]; intros s Hn.
+  - destruct s; [reflexivity|cbn [length] in Hn; lia].
+  - destruct s as [|c s']; [reflexivity|].
+    rewrite c9_replace_all_cons by discriminate.
+    destruct s' as [|d s''].
+    + cbn [has_prefix unesc_pass]. rewrite andb_false_r. reflexivity.
+    + cbn [length] in Hn.
+      cbn [has_prefix length skipn unesc_pass]. rewrite c9_has_prefix_nil, andb_true_r.
+      unfold one_rule at 1. rewrite (Ascii.eqb_sym c bslash), (Ascii.eqb_sym d x).
+      destruct (Ascii.eqb bslash c); cbn [andb].
+      * destruct (Ascii.eqb x d).
+        -- cbn [app]. f_equal. apply IH. lia.
+        -- f_equal. apply IH. cbn [length]. lia.
+      * f_equal. apply IH. cbn [length]. lia.
+Qed.
+
+Lemma pass_cons_nb f c (r : str) : Ascii.eqb c bslash = false ->
+  unesc_pass f (c :: r) = c :: unesc_pass f r.
+Proof. intros H. destruct r as [|d r]; [reflexivity|]. cbn [unesc_pass]. rewrite H. reflexivity. Qed.
+
+Lemma pass_bs_none f (r : str) :
+  match r with e :: _ => f e = None | [] => True end ->
+  unesc_pass f (bslash :: r) = bslash :: unesc_pass f r.
+Proof.
+  intros H. destruct r as [|e r]; [reflexivity|].
+  cbn [unesc_pass]. rewrite H. reflexivity.
+Qed.
+
+Lemma pass_bs_some f e y (r : str) : f e = Some y ->
+  unesc_pass f (bslash :: e :: r) = y :: unesc_pass f r.
+Proof. intros H. cbn [unesc_pass]. rewrite H. reflexivity. Qed.
+
+(** the head of a one-rule pass is the produced byte or the old head *)
+Lemma pass_one_head x y (s : str) :
+  match unesc_pass (one_rule x y) s with
+  | e :: _ => e = y \/ exists s', s = e :: s'
+  | [] => True
+  end.
+Proof.
+  destruct s as [|c [|d s'']]; [exact I|right; eexists; reflexivity|].
+  cbn [unesc_pass]. destruct (Ascii.eqb c bslash).
+  - unfold one_rule. destruct (Ascii.eqb d x); [left; reflexivity|right; eexists; reflexivity].
+  - right; eexists; reflexivity.
+Qed.
+
+(** adding one rule in front of a pass, when its product is not consumed by
+    the other rules *)
+Lemma pass_compose (f : ascii -> option ascii) (x y : ascii) :
+  Ascii.eqb y bslash = false -> f y = None -> f bslash = None ->
+  forall n (s : str), (length s <= n)%nat ->
+    unesc_pass f (unesc_pass (one_rule x y) s)
+    = unesc_pass (fun d => if Ascii.eqb d x then Some y else f d) s.
+Proof.
+  intros Hyb Hfy Hfb. induction n as [|n IH]; intros s Hn.
+  - destruct s; [reflexivity|cbn [length] in Hn; lia].
+  - destruct s as [|c [|d s'']]; [reflexivity|reflexivity|].
+    cbn [length] in Hn.
+    destruct (Ascii.eqb c bslash) eqn:Hc.
+    + apply Ascii.eqb_eq in Hc. subst c.
+      destruct (Ascii.eqb d x) eqn:Hdx.
+      * rewrite (pass_bs_some (one_rule x y) d y) by (unfold one_rule; rewrite Hdx; reflexivity).
+        rewrite (pass_bs_some _ d y) by (rewrite Hdx; reflexivity).
+        rewrite pass_cons_nb by exact Hyb. f_equal. apply IH. lia.
+      * rewrite (pass_bs_none (one_rule x y)) by (unfold one_rule; rewrite Hdx; reflexivity).
+        destruct (f d) as [y'|] eqn:Hfd.
+        -- assert (Hdb : Ascii.eqb d bslash = false).
+           { destruct (Ascii.eqb d bslash) eqn:E; [|reflexivity].
+             apply Ascii.eqb_eq in E. subst d. rewrite Hfb in Hfd. discriminate. }
+           rewrite (pass_cons_nb (one_rule x y)) by exact Hdb.
+           rewrite (pass_bs_some f d y') by exact Hfd.
+           rewrite (pass_bs_some _ d y') by (rewrite Hdx; exact Hfd).
+           f_equal. apply IH. lia.
+        -- rewrite (pass_bs_none f).
+           ++ rewrite (pass_bs_none _ (d :: s'')) by (rewrite Hdx; exact Hfd).
+              f_equal. apply IH. cbn [length]. lia.
+           ++ pose proof (pass_one_head x y (d :: s'')) as Hh.
+              destruct (unesc_pass (one_rule x y) (d :: s'')) as [|e r]; [exact I|].
+              destruct Hh as [->|[s' Hs']]; [exact Hfy|].
+              injection Hs' as <- _. exact Hfd.
+    + rewrite (pass_cons_nb (one_rule x y)) by exact Hc.
+      rewrite pass_cons_nb by exact Hc.
+      rewrite (pass_cons_nb _ c) by exact Hc.
+      f_equal. apply IH. cbn [length]. lia.
+Qed.
+
+(** ** Tables: lookup, well-formedness (stable under permutation) *)
+Definition key_is (k : str) (r : str * str) : bool := str_eqb (fst r) k.
+
+Lemma find_key_iff (tbl : list (str * str)) : NoDup (map fst tbl) ->
+  forall k r, find (key_is k) tbl = Some r <-> In r tbl /\ fst r = k.
+Proof.
+  intros Hnd k r. split.
+  - intros H. apply find_some in H. destruct H as [H1 H2]. split; [exact H1|].
+    apply str_eqb_eq. exact H2.
+  - induction tbl as [|r0 tbl IH]; intros [Hin Hk]; [contradiction|].
+    cbn [find]. inversion Hnd as [|? ? Hnotin Hnd']; subst.
+    destruct Hin as [->|Hin].
+    + unfold key_is at 1. rewrite str_eqb_refl. reflexivity.
+    + unfold key_is at 1. destruct (str_eqb (fst r0) (fst r)) eqn:E.
+      * apply str_eqb_eq in E. exfalso. apply Hnotin. rewrite E. apply in_map. exact Hin.
+      * apply IH; [exact Hnd'|split; [exact Hin|reflexivity]].
+Qed.
+
+Lemma find_key_perm (tbl tbl' : list (str * str)) :
+  NoDup (map fst tbl) -> Permutation tbl tbl' ->
+  forall k, find (key_is k) tbl' = find (key_is k) tbl.
+Proof.
+  intros Hnd Hp k.
+  assert (Hnd' : NoDup (map fst tbl')).
+  { eapply Permutation_NoDup; [apply Permutation_map; exact Hp|exact Hnd]. }
+  destruct (find (key_is k) tbl) as [r|] eqn:E.
+  - apply (find_key_iff tbl Hnd) in E. destruct E as [Hin Hk].
+    apply (find_key_iff tbl' Hnd'). split; [|exact Hk].
+    eapply Permutation_in; [exact Hp|exact Hin].
+  - destruct (find (key_is k) tbl') as [r'|] eqn:E'; [|reflexivity].
+    apply (find_key_iff tbl' Hnd') in E'. destruct E' as [Hin Hk].
+    apply (Permutation_in _ (Permutation_sym Hp)) in Hin.
+    pose proof (find_none _ _ E _ Hin) as Hf. unfold key_is in Hf.
+    rewrite Hk, str_eqb_refl in Hf. discriminate.
+Qed.
+
+(** *** escape-like tables: single byte -> string *)
+Definition esc_shape (r : str * str) : bool :=
+  match fst r with [_] => true | _ => false end.
+Definition esc_compat (r r' : str * str) : bool :=
+  str_eqb (fst r) (fst r') ||
+  match fst r' with [x'] => negb (existsb (Ascii.eqb x') (snd r)) | _ => true end.
+
+Record esc_wf (tbl : list (str * str)) : Prop := {
+  esc_wf_shape : forall r, In r tbl -> esc_shape r = true;
+  esc_wf_nodup : NoDup (map fst tbl);
+  esc_wf_compat : forall r r', In r tbl -> In r' tbl -> esc_compat r r' = true }.
+
+Definition esc_wf_b (tbl : list (str * str)) : bool :=
+  forallb esc_shape tbl && nodup_b (map fst tbl) &&
+  forallb (fun r => forallb (esc_compat r) tbl) tbl.
+
+Lemma esc_wf_b_sound tbl : esc_wf_b tbl = true -> esc_wf tbl.
+Proof.
+  unfold esc_wf_b. intros H. apply andb_true_iff in H. destruct H as [H H3].
+  apply andb_true_iff in H. destruct H as [H1 H2]. constructor.
+  - exact (proj1 (forallb_forall _ _) H1).
+  - apply nodup_b_sound. exact H2.
+  - intros r r' Hr Hr'.
+    exact (proj1 (forallb_forall _ _) (proj1 (forallb_forall _ _) H3 r Hr) r' Hr').
+Qed.
+
+Lemma esc_wf_perm tbl tbl' : Permutation tbl tbl' -> esc_wf tbl -> esc_wf tbl'.
+Proof.
+  intros Hp [H1 H2 H3]. pose proof (Permutation_sym Hp) as Hp'. constructor.
+  - intros r Hr. apply H1. eapply Permutation_in; eassumption.
+  - eapply Permutation_NoDup; [apply Permutation_map; exact Hp|exact H2].
+  - intros r r' Hr Hr'. apply H3; eapply Permutation_in; eassumption.
+Qed.
+
+Lemma esc_wf_tail r tbl : esc_wf (r :: tbl) -> esc_wf tbl.
+Proof.
+  intros [H1 H2 H3]. constructor.
+  - intros r0 Hr0. apply H1. right. exact Hr0.
+  - cbn [map] in H2. inversion H2; assumption.
+  - intros r0 r' Hr0 Hr'. apply H3; right; assumption.
+Qed.
+
+Definition esc_char (tbl : list (str * str)) (c : ascii) : str :=
+  match find (key_is [c]) tbl with Some r => snd r | None => [c] end.
+
+Theorem escape_like_bytewise : forall tbl, esc_wf tbl ->
+  forall s, apply_replacements tbl s = flat_map (esc_char tbl) s.
+Proof.
+  induction tbl as [|r tbl IH]; intros Hwf s.
+  - cbn [apply_replacements fold_left]. unfold esc_char. cbn [find].
+    induction s as [|c s IHs]; [reflexivity|]. cbn [flat_map app]. rewrite <- IHs. reflexivity.
+  - pose proof (esc_wf_tail _ _ Hwf) as Hwf'.
+    destruct r as [o t].
+    unfold apply_replacements. cbn [fold_left].
+    change (fold_left (fun acc '(o0, n) => replace_all acc o0 n) tbl (replace_all s o t))
+      with (apply_replacements tbl (replace_all s o t)).
+    rewrite (IH Hwf').
+    pose proof (esc_wf_shape _ Hwf (o, t) (or_introl eq_refl)) as Hsh.
+    unfold esc_shape in Hsh. cbn [fst] in Hsh.
+    destruct o as [|x [|? ?]]; try discriminate. clear Hsh.
+    rewrite replace_all_byte.
+    (* no byte of t is a source of a later rule *)
+    assert (Ht : flat_map (esc_char tbl) t = t).
+    { assert (Hall : forall x', In x' t -> esc_char tbl x' = [x']).
+      { intros x' Hx'. unfold esc_char.
+        destruct (find (key_is [x']) tbl) as [r'|] eqn:E; [exfalso|reflexivity].
+        apply (find_key_iff tbl (esc_wf_nodup _ Hwf')) in E. destruct E as [Hin Hk].
+        pose proof (esc_wf_compat _ Hwf ([x], t) r' (or_introl eq_refl) (or_intror Hin)) as Hc.
+        unfold esc_compat in Hc. cbn [fst snd] in Hc. rewrite Hk in Hc.
+        apply orb_true_iff in Hc. destruct Hc as [Hc|Hc].
+        - apply str_eqb_eq in Hc.
+          pose proof (esc_wf_nodup _ Hwf) as Hnd. cbn [map fst] in Hnd.
+          inversion Hnd as [|? ? Hnotin _]; subst. apply Hnotin.
+          rewrite Hc, <- Hk. apply in_map. exact Hin.
+        - apply negb_true_iff in Hc.
+          assert (Hex : existsb (Ascii.eqb x') t = true).
+          { apply existsb_exists. exists x'. split; [exact Hx'|apply Ascii.eqb_refl]. }
+          rewrite Hex in Hc. discriminate. }
+      clear - Hall. induction t as [|a t IHt]; [reflexivity|].
+      cbn [flat_map]. rewrite (Hall a (or_introl eq_refl)). cbn [app]. f_equal.
+      apply IHt. intros x' Hx'. apply Hall. right. exact Hx'. }
+    induction s as [|c s IHs]; [reflexivity|].
+    cbn [flat_map]. rewrite flat_map_app, IHs. f_equal.
+    unfold esc_char at 2. cbn [find]. unfold key_is at 1. cbn [fst str_eqb].
+    rewrite andb_true_r, (Ascii.eqb_sym x c).
+    destruct (Ascii.eqb c x); [exact Ht|].
+    cbn [flat_map]. rewrite app_nil_r. reflexivity.
+Qed.
+
+Lemma esc_char_perm tbl tbl' : esc_wf tbl -> Permutation tbl tbl' ->
+  forall c, esc_char tbl' c = esc_char tbl c.
+Proof.
+  intros Hwf Hp c. unfold esc_char.
+  rewrite (find_key_perm tbl tbl' (esc_wf_nodup _ Hwf) Hp). reflexivity.
+Qed.
+
+(** *** unescape-like tables: backslash + byte -> byte *)
+Definition unesc_shape (r : str * str) : bool :=
+  match fst r, snd r with
+  | [b; x], [y] => Ascii.eqb b bslash && negb (Ascii.eqb x bslash) && negb (Ascii.eqb y bslash)
+  | _, _ => false
+  end.
+Definition unesc_compat (r r' : str * str) : bool :=
+  str_eqb (fst r) (fst r') ||
+  match snd r, fst r' with [y], [_; x'] => negb (Ascii.eqb y x') | _, _ => true end.
+
+Record unesc_wf (tbl : list (str * str)) : Prop := {
+  unesc_wf_shape : forall r, In r tbl -> unesc_shape r = true;
+  unesc_wf_nodup : NoDup (map fst tbl);
+  unesc_wf_compat : forall r r', In r tbl -> In r' tbl -> unesc_compat r r' = true }.
+
+Definition unesc_wf_b (tbl : list (str * str)) : bool :=
+  forallb unesc_shape tbl && nodup_b (map fst tbl) &&
+  forallb (fun r => forallb (unesc_compat r) tbl) tbl.
+
+Lemma unesc_wf_b_sound tbl : unesc_wf_b tbl = true -> unesc_wf tbl.
+Proof.
+  unfold unesc_wf_b. intros H. apply andb_true_iff in H. destruct H as [H H3].
+  apply andb_true_iff in H. destruct H as [H1 H2]. constructor.
+  - exact (proj1 (forallb_forall _ _) H1).
+  - apply nodup_b_sound. exact H2.
+  - intros r r' Hr Hr'.
+    exact (proj1 (forallb_forall _ _) (proj1 (forallb_forall _ _) H3 r Hr) r' Hr').
+Qed.
+
+Lemma unesc_wf_perm tbl tbl' : Permutation tbl tbl' -> unesc_wf tbl -> unesc_wf tbl'.
+Proof.
+  intros Hp [H1 H2 H3]. pose proof (Permutation_sym Hp) as Hp'. constructor.
+  - intros r Hr. apply H1. eapply Permutation_in; eassumption.
+  - eapply Permutation_NoDup; [apply Permutation_map; exact Hp|exact H2].
+  - intros r r' Hr Hr'. apply H3; eapply Permutation_in; eassumption.
+Qed.
+
+Lemma unesc_wf_tail r tbl : unesc_wf (r :: tbl) -> unesc_wf tbl.
+Proof.
+  intros [H1 H2 H3]. constructor.
+  - intros r0 Hr0. apply H1. right. exact Hr0.
+  - cbn [map] in H2. inversion H2; assumption.
+  - intros r0 r' Hr0 Hr'. apply H3; right; assumption.
+Qed.
+
+Definition unesc_look (tbl : list (str * str)) (d : ascii) : option ascii :=
+  match find (key_is [bslash; d]) tbl with
+  | Some r => match snd r with [y] => Some y | _ => None end
+  | None => None
+  end.
+
+Lemma unesc_pass_ext_n f g : (forall d, f d = g d) ->
+  forall n (s : str), (length s <= n)%nat -> unesc_pass f s = unesc_pass g s.
+Proof.
+  intros Hfg. induction n as [|n IH]; intros s Hn.
+  - destruct s; [reflexivity|cbn [length] in Hn; lia].
+  - destruct s as [|c [|d s'']]; [reflexivity|reflexivity|]. cbn [length] in Hn.
+    destruct (Ascii.eqb c bslash) eqn:Hc.
+    + apply Ascii.eqb_eq in Hc. subst c. destruct (f d) as [y|] eqn:Hfd.
+      * rewrite (pass_bs_some f d y) by exact Hfd.
+        rewrite (pass_bs_some g d y) by (rewrite <- Hfg; exact Hfd).
+        f_equal. apply IH. lia.
+      * rewrite (pass_bs_none f) by exact Hfd.
+        rewrite (pass_bs_none g) by (rewrite <- Hfg; exact Hfd).
+        f_equal. apply IH. cbn [length]. lia.
+    + rewrite (pass_cons_nb f), (pass_cons_nb g) by exact Hc. f_equal. apply IH. cbn [length]. lia.
+Qed.
+
+Lemma unesc_pass_ext f g : (forall d, f d = g d) -> forall s, unesc_pass f s = unesc_pass g s.
+Proof. intros Hfg s. exact (unesc_pass_ext_n f g Hfg (length s) s (le_n _)). Qed.
+
+Lemma unesc_pass_none_n : forall n (s : str), (length s <= n)%nat -> unesc_pass (fun _ => None) s = s.
+Proof.
+  induction n as [|n IH]; intros s Hn.
+  - destruct s; [reflexivity|cbn [length] in Hn; lia].
+  - destruct s as [|c [|d s'']]; [reflexivity|reflexivity|]. cbn [length] in Hn.
+    destruct (Ascii.eqb c bslash) eqn:Hc.
+    + apply Ascii.eqb_eq in Hc. subst c.
+      rewrite pass_bs_none by reflexivity. f_equal. apply IH. cbn [length]. lia.
+    + rewrite pass_cons_nb by exact Hc. f_equal. apply IH. cbn [length]. lia.
+Qed.
+
+Lemma unesc_pass_none : forall s, unesc_pass (fun _ => None) s = s.
+Proof. intros s. exact (unesc_pass_none_n (length s) s (le_n _)). Qed.
+
+Theorem unescape_like_pass : forall tbl, unesc_wf tbl ->
+  forall s, apply_replacements tbl s = unesc_pass (unesc_look tbl) s.
+Proof.
+  induction tbl as [|r tbl IH]; intros Hwf s.
+  - cbn [apply_replacements fold_left]. symmetry. apply unesc_pass_none.
+  - pose proof (unesc_wf_tail _ _ Hwf) as Hwf'.
+    destruct r as [o t].
+    unfold apply_replacements. cbn [fold_left].
+    change (fold_left (fun acc '(o0, n) => replace_all acc o0 n) tbl (replace_all s o t))
+      with (apply_replacements tbl (replace_all s o t)).
+    rewrite (IH Hwf').
+    pose proof (unesc_wf_shape _ Hwf (o, t) (or_introl eq_refl)) as Hsh.
+    unfold unesc_shape in Hsh. cbn [fst snd] in Hsh.
+    destruct o as [|b [|x [|? ?]]]; try discriminate.
+    destruct t as [|y [|? ?]]; try discriminate.
+    apply andb_true_iff in Hsh. destruct Hsh as [Hsh Hyb].
+    apply andb_true_iff in Hsh. destruct Hsh as [Hb Hxb].
+    apply Ascii.eqb_eq in Hb. subst b.
+    apply negb_true_iff in Hyb. apply negb_true_iff in Hxb.
+    rewrite (replace_all_two x y (length s) s (le_n _)).
+    rewrite (pass_compose (unesc_look tbl) x y Hyb) with (n := length s); [| | |apply le_n].
+    + apply unesc_pass_ext. intros d. unfold unesc_look at 2. cbn [find].
+      unfold key_is at 1. cbn [fst str_eqb]. rewrite andb_true_r.
+      cbn [Ascii.eqb]. rewrite Ascii.eqb_refl. cbn [andb].
+      rewrite (Ascii.eqb_sym x d). destruct (Ascii.eqb d x); reflexivity.
+    + (* the product y is not the second byte of a later rule *)
+      unfold unesc_look.
+      destruct (find (key_is [bslash; y]) tbl) as [r'|] eqn:E; [exfalso|reflexivity].
+      apply (find_key_iff tbl (unesc_wf_nodup _ Hwf')) in E. destruct E as [Hin Hk].
+      pose proof (unesc_wf_compat _ Hwf ([bslash; x], [y]) r' (or_introl eq_refl) (or_intror Hin)) as Hc.
+      unfold unesc_compat in Hc. cbn [fst snd] in Hc. rewrite Hk in Hc.
+      apply orb_true_iff in Hc. destruct Hc as [Hc|Hc].
+      * apply str_eqb_eq in Hc.
+        pose proof (unesc_wf_nodup _ Hwf) as Hnd. cbn [map fst] in Hnd.
+        inversion Hnd as [|? ? Hnotin _]; subst. apply Hnotin.
+        rewrite Hc, <- Hk. apply in_map. exact Hin.
+      * rewrite Ascii.eqb_refl in Hc. discriminate.
+    + (* no rule has the source backslash backslash *)
+      unfold unesc_look.
+      destruct (find (key_is [bslash; bslash]) tbl) as [r'|] eqn:E; [exfalso|reflexivity].
+      apply (find_key_iff tbl (unesc_wf_nodup _ Hwf')) in E. destruct E as [Hin Hk].
+      pose proof (unesc_wf_shape _ Hwf' r' Hin) as Hs'. unfold unesc_shape in Hs'. rewrite Hk in Hs'.
+      destruct (snd r') as [|? [|? ?]]; cbn in Hs'; discriminate.
+Qed.
+
+Lemma unesc_look_perm tbl tbl' : unesc_wf tbl -> Permutation tbl tbl' ->
+  forall d, unesc_look tbl' d = unesc_look tbl d.
+Proof.
+  intros Hwf Hp d. unfold unesc_look.
+  rewrite (find_key_perm tbl tbl' (unesc_wf_nodup _ Hwf) Hp). reflexivity.
+Qed.
+
+(** ** The generated tables *)
+Lemma escape_table_wf : esc_wf escape_table.
+Proof. apply esc_wf_b_sound. vm_compute. reflexivity. Qed.
+
+Lemma unescape_table_wf : unesc_wf unescape_table.
+Proof. apply unesc_wf_b_sound. vm_compute. reflexivity. Qed.
+
+Definition swap_rule (r : str * str) : str * str := (snd r, fst r).
+Definition rule_eqb (r r' : str * str) : bool := str_eqb (fst r) (fst r') && str_eqb (snd r) (snd r').
+Definition rule_mem (r : str * str) (tbl : list (str * str)) : bool := existsb (rule_eqb r) tbl.
+
+Lemma rule_mem_In r tbl : rule_mem r tbl = true <-> In r tbl.
+Proof.
+  unfold rule_mem. rewrite existsb_exists. split.
+  - intros [r' [Hin He]]. unfold rule_eqb in He. apply andb_true_iff in He. destruct He as [H1 H2].
+    apply str_eqb_eq in H1. apply str_eqb_eq in H2. destruct r, r'. cbn [fst snd] in *. subst. exact Hin.
+  - intros Hin. exists r. split; [exact Hin|]. unfold rule_eqb. rewrite !str_eqb_refl. reflexivity.
+Qed.
+
+(** escape rule shape: one byte -> backslash + one byte *)
+Definition esc_rule_shape (r : str * str) : bool :=
+  match fst r, snd r with [_], [b; _] => Ascii.eqb b bslash | _, _ => false end.
+
+(** (a) the two tables are mutually inverse rule by rule; every escape source
+    is one byte, every escape target is backslash + one byte *)
+Theorem C09_escape_unescape_tables :
+  (forall x y, In (x, y) escape_table <-> In (y, x) unescape_table) /\
+  (forall x y, In (x, y) escape_table -> exists c z, x = [c] /\ y = [bslash; z]) /\
+  NoDup (map fst escape_table) /\ NoDup (map fst unescape_table).
+Proof.
+  assert (H1 : forallb (fun r => rule_mem (swap_rule r) unescape_table) escape_table = true)
+    by (vm_compute; reflexivity).
+  assert (H2 : forallb (fun r => rule_mem (swap_rule r) escape_table) unescape_table = true)
+    by (vm_compute; reflexivity).
+  assert (H3 : forallb esc_rule_shape escape_table = true) by (vm_compute; reflexivity).
+  repeat split.
+  - intros Hin. apply (proj1 (forallb_forall _ _) H1) in Hin. apply rule_mem_In in Hin. exact Hin.
+  - intros Hin. apply (proj1 (forallb_forall _ _) H2) in Hin. apply rule_mem_In in Hin. exact Hin.
+  - intros x y Hin. apply (proj1 (forallb_forall _ _) H3) in Hin.
+    unfold esc_rule_shape in Hin. cbn [fst snd] in Hin.
+    destruct x as [|c [|? ?]]; try discriminate.
+    destruct y as [|b [|z [|? ?]]]; try discriminate.
+    apply Ascii.eqb_eq in Hin. subst b. exists c, z. split; reflexivity.
+  - exact (esc_wf_nodup _ escape_table_wf).
+  - exact (unesc_wf_nodup _ unescape_table_wf).
+Qed.
+
+(** escape and unescape as single passes *)
+Definition esc_byte : ascii -> str := esc_char escape_table.
+Definition unesc_byte : ascii -> option ascii := unesc_look unescape_table.
+
+Theorem escape_bytewise : forall s, escape s = flat_map esc_byte s.
+Proof. exact (escape_like_bytewise escape_table escape_table_wf). Qed.
+
+Theorem unescape_pass : forall s, unescape s = unesc_pass unesc_byte s.
+Proof. exact (unescape_like_pass unescape_table unescape_table_wf). Qed.
+
+(** Go iterates over a map: the rule order is random.  Neither function
+    depends on it, on any input. *)
+Theorem C09_escape_order_independent : forall tbl, Permutation escape_table tbl ->
+  forall s, apply_replacements tbl s = escape s.
+Proof.
+  intros tbl Hp s.
+  rewrite (escape_like_bytewise tbl (esc_wf_perm _ _ Hp escape_table_wf)), escape_bytewise.
+  apply flat_map_ext. intros c. apply (esc_char_perm _ _ escape_table_wf Hp).
+Qed.
+
+Theorem C09_unescape_order_independent : forall tbl, Permutation unescape_table tbl ->
+  forall s, apply_replacements tbl s = unescape s.
+Proof.
+  intros tbl Hp s.
+  rewrite (unescape_like_pass tbl (unesc_wf_perm _ _ Hp unescape_table_wf)), unescape_pass.
+  apply unesc_pass_ext. intros d. apply (unesc_look_perm _ _ unescape_table_wf Hp).
+Qed.
+
+(** ** (b) clean strings *)
+(** second bytes of the unescape-rule sources *)
+Definition unesc_seconds : list ascii :=
+  flat_map (fun r => match fst r with [_; x] => [x] | _ => [] end) unescape_table.
+Definition is_second (d : ascii) : bool := existsb (Ascii.eqb d) unesc_seconds.
+
+(** no backslash immediately followed by the second byte of an unescape rule *)
+Fixpoint clean_b (v : str) : bool :=
+  match v with
+  | [] => true
+  | c :: v' =>
+    (negb (Ascii.eqb c bslash) || match v' with d :: _ => negb (is_second d) | [] => true end)
+    && clean_b v'
+  end.
+Definition clean (v : str) : Prop := clean_b v = true.
+
+(** what the tables say about one byte [c]:
+    - either escape leaves it alone, and then it is neither a quote nor a newline;
+    - or escape turns it into backslash + z, unescape turns that back into c, z is
+      neither newline nor backslash, and z is a quote only when c is itself the
+      second byte of an unescape source. *)
+Definition byte_fact (c : ascii) : bool :=
+  if str_eqb (esc_byte c) [c]
+  then negb (Ascii.eqb c dquote) && negb (Ascii.eqb c lfchar)
+  else match esc_byte c with
+       | [b; z] =>
+         Ascii.eqb b bslash && negb (Ascii.eqb c bslash) && negb (Ascii.eqb z lfchar) &&
+         negb (Ascii.eqb z bslash) &&
+         match unesc_byte z with Some x => Ascii.eqb x c | None => false end &&
+         (is_second c || negb (Ascii.eqb z dquote))
+       | _ => false
+       end.
+
+Lemma byte_fact_all : forall c, byte_fact c = true.
+Proof. apply forall_bytes. vm_compute. reflexivity. Qed.
+
+Lemma second_fact_all : forall d, is_second d || match unesc_byte d with None => true | Some _ => false end = true.
+Proof. apply forall_bytes. vm_compute. reflexivity. Qed.
+
+Lemma unesc_byte_bslash : unesc_byte bslash = None.
+Proof. vm_compute. reflexivity. Qed.
+
+Inductive byte_case (c : ascii) : Prop :=
+| BC_plain : esc_byte c = [c] -> c <> dquote -> c <> lfchar -> byte_case c
+| BC_special : forall z, esc_byte c = [bslash; z] -> c <> bslash -> z <> lfchar -> z <> bslash ->
+    unesc_byte z = Some c -> (is_second c = false -> z <> dquote) -> byte_case c.
+
+Lemma neqb_neq (a b : ascii) : negb (Ascii.eqb a b) = true -> a <> b.
+Proof. intros H E. subst. rewrite Ascii.eqb_refl in H. discriminate. Qed.
+
+Lemma byte_cases : forall c, byte_case c.
+Proof.
+  intros c. pose proof (byte_fact_all c) as H. unfold byte_fact in H.
+  destruct (str_eqb (esc_byte c) [c]) eqn:E.
+  - apply str_eqb_eq in E. apply andb_true_iff in H. destruct H as [H1 H2].
+    apply BC_plain; [exact E|apply neqb_neq; exact H1|apply neqb_neq; exact H2].
+  - destruct (esc_byte c) as [|b [|z [|? ?]]] eqn:Ee; try discriminate.
+    apply andb_true_iff in H. destruct H as [H H6].
+    apply andb_true_iff in H. destruct H as [H H5].
+    apply andb_true_iff in H. destruct H as [H H4].
+    apply andb_true_iff in H. destruct H as [H H3].
+    apply andb_true_iff in H. destruct H as [H1 H2].
+    apply Ascii.eqb_eq in H1. subst b.
+    destruct (unesc_byte z) as [x|] eqn:Eu; [|discriminate].
+    apply Ascii.eqb_eq in H5. subst x.
+    apply (BC_special c z).
+    + exact Ee.
+    + apply neqb_neq. exact H2.
+    + apply neqb_neq. exact H3.
+    + apply neqb_neq. exact H4.
+    + exact Eu.
+    + intros Hs. rewrite Hs in H6. cbn [orb] in H6. apply neqb_neq. exact H6.
+Qed.
+
+Lemma esc_byte_bslash : esc_byte bslash = [bslash].
+Proof.
+  destruct (byte_cases bslash) as [H _ _|z _ Hne _ _ _ _]; [exact H|congruence].
+Qed.
+
+Lemma not_second_unesc d : is_second d = false -> unesc_byte d = None.
+Proof.
+  intros H. pose proof (second_fact_all d) as F. rewrite H in F. cbn [orb] in F.
+  destruct (unesc_byte d); [discriminate|reflexivity].
+Qed.
+
+Lemma clean_tail c v : clean (c :: v) -> clean v.
+Proof. unfold clean. cbn [clean_b]. intros H. apply andb_true_iff in H. tauto. Qed.
+
+Lemma clean_bslash_next d v : clean (bslash :: d :: v) -> is_second d = false.
+Proof.
+  unfold clean. cbn [clean_b]. intros H. apply andb_true_iff in H. destruct H as [H _].
+  rewrite Ascii.eqb_refl in H. cbn [negb orb] in H. apply negb_true_iff in H. exact H.
+Qed.
+
+(** head of an escaped string *)
+Lemma esc_head_unesc_none : forall d v, is_second d = false ->
+  match flat_map esc_byte (d :: v) with e :: _ => unesc_byte e = None | [] => True end.
+Proof.
+  intros d v Hd. cbn [flat_map].
+  destruct (byte_cases d) as [Hp _ _|z Hs _ _ _ _ _].
+  - rewrite Hp. cbn [app]. apply not_second_unesc. exact Hd.
+  - rewrite Hs. cbn [app]. exact unesc_byte_bslash.
+Qed.
+
+Lemma unesc_esc_clean : forall v, clean v -> unesc_pass unesc_byte (flat_map esc_byte v) = v.
+Proof.
+  induction v as [|c v IH]; intros Hc; [reflexivity|].
+  pose proof (IH (clean_tail _ _ Hc)) as IHv.
+  destruct (Ascii.eqb c bslash) eqn:Hcb.
+  - apply Ascii.eqb_eq in Hcb. subst c.
+    cbn [flat_map]. rewrite esc_byte_bslash. cbn [app].
+    rewrite pass_bs_none; [rewrite IHv; reflexivity|].
+    destruct v as [|d v']; [exact I|].
+    apply esc_head_unesc_none. apply (clean_bslash_next d v'). exact Hc.
+  - cbn [flat_map]. destruct (byte_cases c) as [Hp _ _|z Hs _ _ _ Hu _].
+    + rewrite Hp. cbn [app]. rewrite pass_cons_nb by exact Hcb. rewrite IHv. reflexivity.
+    + rewrite Hs. cbn [app]. rewrite (pass_bs_some unesc_byte z c) by exact Hu. rewrite IHv. reflexivity.
+Qed.
+
+Theorem C09_unescape_escape : forall v, clean v -> unescape (escape v) = v.
+Proof. intros v Hc. rewrite unescape_pass, escape_bytewise. apply unesc_esc_clean. exact Hc. Qed.
+
+(** the same for every iteration order of the two Go maps *)
+Theorem C09_unescape_escape_any_order : forall et ut,
+  Permutation escape_table et -> Permutation unescape_table ut ->
+  forall v, clean v -> apply_replacements ut (apply_replacements et v) = v.
+Proof.
+  intros et ut He Hu v Hc.
+  rewrite (C09_escape_order_independent et He), (C09_unescape_order_independent ut Hu).
+  apply C09_unescape_escape. exact Hc.
+Qed.
+
+(** Outside the clean strings the composition fails: the value backslash-n
+    prints as the two bytes backslash-n, which read back as a newline.  (Such a
+    value is not produced by the parser from a literal: the body that looks like
+    it should, backslash backslash n, yields backslash + newline — see
+    C09_body_bs_bs_n below — but it can reach Sprint in a tree built by hand.) *)
+Example C09_unescape_escape_unclean_refuted :
+  let v := [bslash; "n"%char] in
+  ~ clean v /\ unescape (escape v) = [lfchar] /\ unescape (escape v) <> v.
+Proof. vm_compute. repeat split; try reflexivity; discriminate. Qed.
+
+Example C09_body_bs_bs_n :
+  unescape (strip_dquotes (bs """\\n""")) = [bslash; lfchar] /\
+  escape [bslash; lfchar] = bs "\\n" /\ clean [bslash; lfchar].
+Proof. vm_compute. repeat split; reflexivity. Qed.
+
+(** ** (c) what the parser stores for a literal *)
+Lemma strip_dquotes_quoted (s : str) : strip_dquotes (bs """" ++ s ++ bs """") = s.
+Proof.
+  unfold strip_dquotes. cbn [bs list_ascii_of_string app].
+  rewrite rev_app_distr. cbn [rev app]. cbn. rewrite rev_involutive. reflexivity.
+Qed.
+
+Theorem C09_literal_value : forall v, clean v ->
+  unescape (strip_dquotes (param_string (FPStr v))) = v.
+Proof.
+  intros v Hc. cbn [param_string]. rewrite strip_dquotes_quoted. apply C09_unescape_escape. exact Hc.
+Qed.
+
+(** ** (c, continued) the printed literal is read back as one string token *)
+
+(** The scanner inside a string literal, as an automaton on runes: [st] = just
+    after a backslash.  After a backslash any rune but a newline is consumed
+    (known escape, digits, or an unknown escape that mpath tolerates). *)
+Fixpoint rsafe (st : bool) (cs : list (Z * str)) : bool :=
+  match cs with
+  | [] => negb st
+  | (c, _) :: cs' =>
+    if st then negb (c =? 10) && rsafe false cs'
+    else if (c =? 34) || (c =? 10) then false
+    else rsafe (c =? 92) cs'
+  end.
+
+Definition plain_rune (c : Z) : Prop := c <> 34 /\ c <> 10 /\ c <> 92.
+
+Lemma digit_plain c : digit_val c < 16 -> plain_rune c.
+Proof. intros H. repeat split; intros ->; vm_compute in H; discriminate. Qed.
+
+Lemma rsafe_plain c b cs : plain_rune c -> rsafe false ((c, b) :: cs) = rsafe false cs.
+Proof.
+  intros (H1 & H2 & H3). cbn [rsafe].
+  apply Z.eqb_neq in H1. apply Z.eqb_neq in H2. apply Z.eqb_neq in H3.
+  rewrite H1, H2, H3. reflexivity.
+Qed.
+
+Lemma rsafe_skip_plain : forall j cs,
+  Forall (fun x => plain_rune (fst x)) (firstn j cs) -> rsafe false (skipn j cs) = rsafe false cs.
+Proof.
+  induction j as [|j IH]; intros cs HF; [reflexivity|].
+  destruct cs as [|[c b] cs]; [reflexivity|].
+  cbn [firstn] in HF. inversion HF as [|? ? Hc HF']; subst. cbn [fst] in Hc.
+  cbn [skipn]. rewrite (rsafe_plain c b cs Hc). apply IH. exact HF'.
+Qed.
+
+Lemma scan_digits_app : forall n base cs q rest acc, base <= 16 ->
+  exists j, (j <= length cs)%nat /\
+    Forall (fun x => plain_rune (fst x)) (firstn j cs) /\
+    scan_digits n base (cs ++ (34, q) :: rest) acc
+    = (acc ++ concat (map snd (firstn j cs)), skipn j cs ++ (34, q) :: rest).
+Proof.
+  induction n as [|n IH]; intros base cs q rest acc Hb.
+  - exists O. split; [lia|]. split; [constructor|]. cbn [scan_digits firstn skipn map concat].
+    rewrite app_nil_r. reflexivity.
+  - destruct cs as [|[c b] cs].
+    + exists O. split; [lia|]. split; [constructor|]. cbn [scan_digits app firstn skipn map concat].
+      assert (Hd : (digit_val 34 <? base) = false) by (apply Z.ltb_ge; vm_compute digit_val; lia).
+      rewrite Hd, app_nil_r. reflexivity.
+    + cbn [app scan_digits]. destruct (digit_val c <? base) eqn:Hd.
+      * destruct (IH base cs q rest (acc ++ b) Hb) as (j & Hj & HF & Heq).
+        exists (S j). split; [cbn [length]; lia|]. split.
+        -- cbn [firstn]. constructor; [|exact HF]. cbn [fst]. apply digit_plain.
+           apply Z.ltb_lt in Hd. lia.
+        -- rewrite Heq. cbn [firstn skipn map concat snd]. rewrite <- !app_assoc. reflexivity.
+      * exists O. split; [lia|]. split; [constructor|]. cbn [firstn skipn map concat].
+        rewrite app_nil_r. reflexivity.
+Qed.
+
+Lemma scan_string_S fuel quote c b cs acc n :
+  scan_string (S fuel) quote ((c, b) :: cs) acc n =
+  if c =? quote then Some (acc ++ b, n, cs)
+  else if c =? 10 then None
+  else if c =? 92 then
+    match cs with
+    | [] => None
+    | (e, eb) :: cs'' =>
+      if zmem e [97; 98; 102; 110; 114; 116; 118; 92] || (e =? quote)
+      then scan_string fuel quote cs'' (acc ++ b ++ eb) (S n)
+      else if (48 <=? e) && (e <=? 55) then
+        let (acc', r) := scan_digits 3 8 cs (acc ++ b) in scan_string fuel quote r acc' (S n)
+      else if e =? 120 then
+        let (acc', r) := scan_digits 2 16 cs'' (acc ++ b ++ eb) in scan_string fuel quote r acc' (S n)
+      else if e =? 117 then
+        let (acc', r) := scan_digits 4 16 cs'' (acc ++ b ++ eb) in scan_string fuel quote r acc' (S n)
+      else if e =? 85 then
+        let (acc', r) := scan_digits 8 16 cs'' (acc ++ b ++ eb) in scan_string fuel quote r acc' (S n)
+      else scan_string fuel quote cs (acc ++ b) (S n)
+    end
+  else scan_string fuel quote cs (acc ++ b) (S n).
+Proof. reflexivity. Qed.
+
+(** the scanner consumes a safe body and stops at the closing quote *)
+Lemma scan_string_safe : forall m cs, (length cs <= m)%nat -> rsafe false cs = true ->
+  forall fuel q rest acc n, (length cs < fuel)%nat ->
+  exists n', scan_string fuel 34 (cs ++ (34, q) :: rest) acc n
+             = Some (acc ++ concat (map snd cs) ++ q, n', rest).
+Proof.
+  induction m as [|m IH]; intros cs Hm Hs fuel q rest acc n Hf.
+  - destruct cs; [|cbn [length] in Hm; lia].
+    destruct fuel as [|fuel]; [lia|]. exists n. cbn [app]. rewrite scan_string_S.
+    cbn [map concat app]. reflexivity.
+  - destruct cs as [|[c b] cs'].
+    + destruct fuel as [|fuel]; [lia|]. exists n. cbn [app]. rewrite scan_string_S.
+      cbn [map concat app]. reflexivity.
+    + destruct fuel as [|fuel]; [cbn [length] in Hf; lia|].
+      cbn [length] in Hm, Hf.
+      cbn [rsafe] in Hs.
+      destruct ((c =? 34) || (c =? 10)) eqn:Hq; [discriminate|].
+      apply orb_false_iff in Hq. destruct Hq as [Hc34 Hc10].
+      cbn [app]. rewrite scan_string_S, Hc34, Hc10.
+      cbn [map concat snd].
+      destruct (c =? 92) eqn:Hc92.
+      * (* backslash *)
+        destruct cs' as [|[e eb] cs'']; [cbn [rsafe] in Hs; discriminate|].
+        cbn [rsafe] in Hs. apply andb_true_iff in Hs. destruct Hs as [He10 Hs].
+        apply negb_true_iff in He10.
+        cbn [length] in Hm, Hf. cbn [app map concat snd].
+        destruct (zmem e [97; 98; 102; 110; 114; 116; 118; 92] || (e =? 34)) eqn:Hk.
+        { destruct (IH cs'' ltac:(lia) Hs fuel q rest (acc ++ b ++ eb) (S n) ltac:(lia)) as [n' Hn'].
+          exists n'. rewrite Hn'. rewrite <- !app_assoc. reflexivity. }
+        apply orb_false_iff in Hk. destruct Hk as [Hz He34].
+        assert (He92 : (e =? 92) = false).
+        { cbn [zmem] in Hz. repeat (apply orb_false_iff in Hz; destruct Hz as [? Hz]).
+          repeat match goal with H : _ || _ = false |- _ => apply orb_false_iff in H; destruct H end.
+          assumption. }
+        assert (Hplain : plain_rune e).
+        { repeat split; apply Z.eqb_neq; assumption. }
+        assert (Hs' : rsafe false ((e, eb) :: cs'') = true) by (rewrite rsafe_plain; assumption).
+        (* a helper for the four digit-scanning branches *)
+        assert (Hscan : forall k base (body : list (Z * str)) accd,
+                  base <= 16 -> (length body <= m)%nat -> (length body < fuel)%nat ->
+                  rsafe false body = true ->
+                  exists n', (let (acc', r) := scan_digits k base (body ++ (34, q) :: rest) accd in
+                              scan_string fuel 34 r acc' (S n))
+                             = Some (accd ++ concat (map snd body) ++ q, n', rest)).
+        { intros k base body accd Hb Hlen Hlf Hsb.
+          destruct (scan_digits_app k base body q rest accd Hb) as (j & Hj & HF & Heq).
+          rewrite Heq.
+          assert (Hsk : rsafe false (skipn j body) = true) by (rewrite rsafe_skip_plain; assumption).
+          assert (Hlen' : (length (skipn j body) <= m)%nat) by (rewrite skipn_length; lia).
+          destruct (IH (skipn j body) Hlen' Hsk fuel q rest (accd ++ concat (map snd (firstn j body))) (S n)
+                       ltac:(rewrite skipn_length; lia)) as [n' Hn'].
+          exists n'. rewrite Hn'.
+          assert (Hcat : concat (map snd body)
+                         = concat (map snd (firstn j body)) ++ concat (map snd (skipn j body)))
+            by (rewrite <- concat_app, <- map_app, firstn_skipn; reflexivity).
+          rewrite Hcat, <- !app_assoc. reflexivity. }
+        destruct ((48 <=? e) && (e <=? 55)) eqn:Hoct.
+        { destruct (Hscan 3%nat 8 ((e, eb) :: cs'') (acc ++ b) ltac:(lia)
+                          ltac:(cbn [length]; lia) ltac:(cbn [length]; lia) Hs') as [n' Hn'].
+          exists n'. cbn [app] in Hn'. rewrite Hn'. cbn [map concat snd].
+          rewrite <- !app_assoc. reflexivity. }
+        destruct (e =? 120) eqn:Hx.
+        { destruct (Hscan 2%nat 16 cs'' (acc ++ b ++ eb) ltac:(lia)
+                          ltac:(lia) ltac:(lia) Hs) as [n' Hn'].
+          exists n'. rewrite Hn'. rewrite <- !app_assoc. reflexivity. }
+        destruct (e =? 117) eqn:Hu.
+        { destruct (Hscan 4%nat 16 cs'' (acc ++ b ++ eb) ltac:(lia)
+                          ltac:(lia) ltac:(lia) Hs) as [n' Hn'].
+          exists n'. rewrite Hn'. rewrite <- !app_assoc. reflexivity. }
+        destruct (e =? 85) eqn:HU.
+        { destruct (Hscan 8%nat 16 cs'' (acc ++ b ++ eb) ltac:(lia)
+                          ltac:(lia) ltac:(lia) Hs) as [n' Hn'].
+          exists n'. rewrite Hn'. rewrite <- !app_assoc. reflexivity. }
+        (* unknown escape: tolerated, the rune is scanned next *)
+        destruct (IH ((e, eb) :: cs'') ltac:(cbn [length]; lia) Hs' fuel q rest (acc ++ b) (S n)
+                     ltac:(cbn [length]; lia)) as [n' Hn'].
+        exists n'. cbn [app] in Hn'. rewrite Hn'. cbn [map concat snd].
+        rewrite <- !app_assoc. reflexivity.
+      * destruct (IH cs' ltac:(lia) Hs fuel q rest (acc ++ b) (S n) ltac:(lia)) as [n' Hn'].
+        exists n'. rewrite Hn'. rewrite <- !app_assoc. reflexivity.
+Qed.
+
+(* ================================================================== *)
+(** * 3. Numeric literals                                              *)
+(* ================================================================== *)
+(* C09 — number round trip: numeral (dec_to_string d) = NumOk d for canonical d
+   within the 15-significant-digit window of [numeral]. *)
+
+(** * Character facts, by exhaustion over the 256 bytes *)
+
+Local Ltac num_all_bytes c :=
+  destruct c as [b0 b1 b2 b3 b4 b5 b6 b7];
+  destruct b0, b1, b2, b3, b4, b5, b6, b7; vm_compute; reflexivity.
+
+(* the characters that can occur in the body of a printed decimal *)
+Definition num_dchar (c : ascii) : bool := is_digit c || Ascii.eqb c "."%char.
+
+Lemma num_digit_facts : forall c,
+  implb (is_digit c)
+    (negb (Ascii.eqb c "-"%char) && negb (Ascii.eqb c "+"%char) &&
+     negb (Ascii.eqb c "."%char) && (0 <=? byte c - 48) && (byte c - 48 <=? 9) &&
+     (Ascii.eqb c "0"%char || (1 <=? byte c - 48)) &&
+     (negb (Ascii.eqb c "0"%char) || (byte c - 48 =? 0))) = true.
+Proof. intro c. num_all_bytes c. Qed.
+
+Lemma num_dchar_facts : forall c,
+  implb (num_dchar c)
+    (negb (Ascii.eqb c "e"%char || Ascii.eqb c "E"%char) &&
+     negb (Ascii.eqb c "_"%char) &&
+     negb (Ascii.eqb (lower_ascii c) "x"%char)) = true.
+Proof. intro c. num_all_bytes c. Qed.
+
+Lemma num_digit_range : forall c, is_digit c = true -> 0 <= byte c - 48 <= 9.
+Proof.
+  intros c H. pose proof (num_digit_facts c) as F. rewrite H in F. cbn [implb] in F.
+  repeat (apply andb_prop in F; destruct F as [F ?]). lia.
+Qed.
+
+Lemma num_digit_nonzero : forall c, is_digit c = true -> Ascii.eqb c "0"%char = false -> 1 <= byte c - 48.
+Proof.
+  intros c H H0. pose proof (num_digit_facts c) as F. rewrite H in F. cbn [implb] in F.
+  repeat (apply andb_prop in F; destruct F as [F ?]).
+  rewrite H0 in *. cbn [orb] in *. lia.
+Qed.
+
+Lemma num_digit_zero : forall c, is_digit c = true -> Ascii.eqb c "0"%char = true -> byte c - 48 = 0.
+Proof.
+  intros c H H0. pose proof (num_digit_facts c) as F. rewrite H in F. cbn [implb] in F.
+  repeat (apply andb_prop in F; destruct F as [F ?]).
+  rewrite H0 in *. cbn [orb negb] in *. lia.
+Qed.
+
+Lemma num_digit_not_sign : forall c, is_digit c = true ->
+  Ascii.eqb c "-"%char = false /\ Ascii.eqb c "+"%char = false /\ Ascii.eqb c "."%char = false.
+Proof.
+  intros c H. pose proof (num_digit_facts c) as F. rewrite H in F. cbn [implb] in F.
+  repeat (apply andb_prop in F; destruct F as [F ?]).
+  repeat match goal with X : negb _ = true |- _ => apply Bool.negb_true_iff in X end.
+  auto.
+Qed.
+
+Lemma num_dchar_not : forall c, num_dchar c = true ->
+  (Ascii.eqb c "e"%char || Ascii.eqb c "E"%char) = false /\
+  Ascii.eqb c "_"%char = false /\
+  Ascii.eqb (lower_ascii c) "x"%char = false.
+Proof.
+  intros c H. pose proof (num_dchar_facts c) as F. rewrite H in F. cbn [implb] in F.
+  repeat (apply andb_prop in F; destruct F as [F ?]).
+  repeat match goal with X : negb _ = true |- _ => apply Bool.negb_true_iff in X end.
+  auto.
+Qed.
+
+(** * Digit strings and their Horner value *)
+
+Lemma num_dv_cons : forall acc c s, is_digit c = true ->
+  digits_val acc (c :: s) = digits_val (acc * 10 + (byte c - 48)) s.
+Proof. intros acc c s H. cbn [digits_val]. rewrite H. reflexivity. Qed.
+
+Lemma num_all_digits_app : forall a b, all_digits (a ++ b) = all_digits a && all_digits b.
+Proof.
+  induction a as [|c a IH]; intro b; cbn [all_digits app]; [reflexivity|].
+  rewrite IH. apply Bool.andb_assoc.
+Qed.
+
+(* value bounds: acc * 10^len <= v < (acc+1) * 10^len *)
+Lemma num_dv_bounds : forall ds acc v, 0 <= acc ->
+  digits_val acc ds = Some v ->
+  acc * 10 ^ Z.of_nat (length ds) <= v < (acc + 1) * 10 ^ Z.of_nat (length ds).
+Proof.
+  induction ds as [|c ds IH]; intros acc v Hacc H.
+  - cbn [digits_val] in H. injection H as H. subst v. cbn [length Z.of_nat]. rewrite Z.pow_0_r. lia.
+  - cbn [digits_val] in H. destruct (is_digit c) eqn:Hc; [|discriminate].
+    pose proof (num_digit_range c Hc) as Hr.
+    apply IH in H; [|lia].
+    cbn [length]. rewrite Nat2Z.inj_succ, Z.pow_succ_r by lia.
+    assert (0 < 10 ^ Z.of_nat (length ds)) by (apply Z.pow_pos_nonneg; lia).
+    nia.
+Qed.
+
+Lemma num_dv_app1 : forall pre acc l v,
+  digits_val acc (pre ++ [l]) = Some v ->
+  exists v', v = v' * 10 + (byte l - 48) /\ is_digit l = true.
+Proof.
+  induction pre as [|c pre IH]; intros acc l v H.
+  - cbn [app digits_val] in H. destruct (is_digit l); [|discriminate].
+    injection H as H. exists acc. split; [lia|reflexivity].
+  - cbn [app digits_val] in H. destruct (is_digit c); [|discriminate].
+    apply IH in H. exact H.
+Qed.
+
+(** * show_Z *)
+
+Definition num_las := list_ascii_of_string.
+
+Lemma num_ustr_acc : forall u acc,
+  digits_val (Z.pos acc) (num_las (DecimalString.NilEmpty.string_of_uint u)) =
+  Some (Z.pos (Pos.of_uint_acc u acc)).
+Proof.
+  unfold num_las.
+  induction u as [|u IH|u IH|u IH|u IH|u IH|u IH|u IH|u IH|u IH|u IH]; intro acc;
+    cbn [DecimalString.NilEmpty.string_of_uint list_ascii_of_string Pos.of_uint_acc];
+    [reflexivity|..];
+    (rewrite num_dv_cons by reflexivity; rewrite <- IH; f_equal;
+     match goal with |- context [byte ?c] =>
+       let v := eval vm_compute in (byte c) in change (byte c) with v end;
+     lia).
+Qed.
+
+Lemma num_ustr_val : forall u,
+  digits_val 0 (num_las (DecimalString.NilEmpty.string_of_uint u)) = Some (Z.of_N (Pos.of_uint u)).
+Proof.
+  induction u as [|u IH|u IH|u IH|u IH|u IH|u IH|u IH|u IH|u IH|u IH];
+    [reflexivity|..];
+    unfold num_las in *;
+    cbn [DecimalString.NilEmpty.string_of_uint list_ascii_of_string Pos.of_uint Z.of_N];
+    rewrite num_dv_cons by reflexivity;
+    match goal with |- context [0 * 10 + (byte ?c - 48)] =>
+      let v := eval vm_compute in (0 * 10 + (byte c - 48)) in
+      change (0 * 10 + (byte c - 48)) with v end;
+    [exact IH | apply num_ustr_acc ..].
+Qed.
+
+Lemma num_ustr_digits : forall u,
+  all_digits (num_las (DecimalString.NilEmpty.string_of_uint u)) = true.
+Proof.
+  unfold num_las.
+  induction u as [|u IH|u IH|u IH|u IH|u IH|u IH|u IH|u IH|u IH|u IH];
+    cbn [DecimalString.NilEmpty.string_of_uint list_ascii_of_string all_digits];
+    [reflexivity|..]; rewrite IH; reflexivity.
+Qed.
+
+Lemma num_to_uint_unorm : forall p, Pos.to_uint p = Decimal.unorm (Pos.to_uint p).
+Proof.
+  intro p. rewrite <- (DecimalPos.Unsigned.to_of (Pos.to_uint p)).
+  rewrite DecimalPos.Unsigned.of_to. reflexivity.
+Qed.
+
+(* the decimal expansion of a positive number: digits, no leading zero, right value *)
+Lemma num_show_pos : forall p, exists h t,
+  show_Z (Z.pos p) = h :: t /\ Ascii.eqb h "0"%char = false /\
+  all_digits (h :: t) = true /\ digits_val 0 (h :: t) = Some (Z.pos p).
+Proof.
+  intro p.
+  assert (Hs : show_Z (Z.pos p) = num_las (DecimalString.NilEmpty.string_of_uint (Pos.to_uint p))).
+  { unfold show_Z, bs, num_las. cbn [Z.to_int DecimalString.NilZero.string_of_int].
+    pose proof (DecimalPos.Unsigned.to_uint_nonnil p) as Hn.
+    destruct (Pos.to_uint p); [congruence|reflexivity..]. }
+  pose proof (num_ustr_val (Pos.to_uint p)) as Hv.
+  rewrite DecimalPos.Unsigned.of_to in Hv. cbn [Z.of_N] in Hv.
+  pose proof (num_ustr_digits (Pos.to_uint p)) as Hd.
+  rewrite <- Hs in Hv, Hd.
+  pose proof (num_to_uint_unorm p) as Hu.
+  pose proof (DecimalPos.Unsigned.to_uint_nonzero p) as Hnz.
+  pose proof (DecimalPos.Unsigned.to_uint_nonnil p) as Hnn.
+  assert (Hh : match Pos.to_uint p with Decimal.Nil | Decimal.D0 _ => False | _ => True end).
+  { rewrite Hu. unfold Decimal.unorm.
+    pose proof (DecimalFacts.nzhead_nonzero (Pos.to_uint p)) as Hz.
+    destruct (Decimal.nzhead (Pos.to_uint p)) as [|u|u|u|u|u|u|u|u|u|u] eqn:E; try exact I.
+    - rewrite Hu in Hnz. unfold Decimal.unorm in Hnz. rewrite E in Hnz. congruence.
+    - exfalso. exact (Hz u eq_refl). }
+  rewrite Hs in *. unfold num_las in *.
+  destruct (Pos.to_uint p) as [|u|u|u|u|u|u|u|u|u|u]; try contradiction;
+    cbn [DecimalString.NilEmpty.string_of_uint list_ascii_of_string] in *;
+    eexists; eexists; (split; [reflexivity|]); (split; [reflexivity|]); split; assumption.
+Qed.
+
+Lemma num_show_neg : forall p, show_Z (Z.neg p) = "-"%char :: show_Z (Z.pos p).
+Proof. intro p. reflexivity. Qed.
+
+(** * Small list facts about the printer's and the reader's helpers *)
+
+Lemma num_strip_nz : forall h t, Ascii.eqb h "0"%char = false -> strip_leading_zeros (h :: t) = h :: t.
+Proof. intros h t H. cbn [strip_leading_zeros]. rewrite H. reflexivity. Qed.
+
+Lemma num_strip_zeros_repeat : forall k s,
+  strip_leading_zeros (repeat "0"%char k ++ s) = strip_leading_zeros s.
+Proof. induction k as [|k IH]; intro s; [reflexivity|]. cbn [repeat app strip_leading_zeros]. apply IH. Qed.
+
+Lemma num_trim_last : forall pre l, Ascii.eqb l "0"%char = false ->
+  trim_trailing_zeros (pre ++ [l]) = pre ++ [l].
+Proof.
+  intros pre l H. unfold trim_trailing_zeros. rewrite rev_app_distr. cbn [rev app trim_trailing_zeros_rev].
+  rewrite H. cbn [rev]. rewrite rev_involutive. reflexivity.
+Qed.
+
+Lemma num_all_digits_repeat : forall k, all_digits (repeat "0"%char k) = true.
+Proof. induction k as [|k IH]; [reflexivity|]. cbn [repeat all_digits]. rewrite IH. reflexivity. Qed.
+
+Definition num_plain (s : str) : bool := forallb num_dchar s.
+
+Lemma num_plain_digits : forall s, all_digits s = true -> num_plain s = true.
+Proof.
+  induction s as [|c s IH]; intro H; [reflexivity|].
+  cbn [all_digits] in H. apply andb_prop in H. destruct H as [Hc Hs].
+  cbn [num_plain forallb]. unfold num_dchar at 1. rewrite Hc. cbn [orb andb]. apply IH, Hs.
+Qed.
+
+Lemma num_plain_app : forall a b, num_plain (a ++ b) = num_plain a && num_plain b.
+Proof. intros a b. unfold num_plain. apply forallb_app. Qed.
+
+Lemma num_plain_no_e : forall s i, num_plain s = true -> index_any_e s i = None.
+Proof.
+  induction s as [|c s IH]; intros i H; [reflexivity|].
+  cbn [num_plain forallb] in H. apply andb_prop in H. destruct H as [Hc Hs].
+  destruct (num_dchar_not c Hc) as (He & _ & _).
+  cbn [index_any_e]. rewrite He. apply IH, Hs.
+Qed.
+
+Lemma num_plain_no_us : forall s, num_plain s = true ->
+  existsb (fun c => Ascii.eqb c "_"%char) s = false.
+Proof.
+  induction s as [|c s IH]; intro H; [reflexivity|].
+  cbn [num_plain forallb] in H. apply andb_prop in H. destruct H as [Hc Hs].
+  destruct (num_dchar_not c Hc) as (_ & Hu & _).
+  cbn [existsb]. rewrite Hu. cbn [orb]. apply IH, Hs.
+Qed.
+
+Lemma num_plain_no_hex : forall s, num_plain s = true -> starts_hex s = false.
+Proof.
+  intros [|z [|x s]] H; [reflexivity..|].
+  cbn [num_plain forallb] in H. apply andb_prop in H. destruct H as [_ H].
+  apply andb_prop in H. destruct H as [Hx _].
+  destruct (num_dchar_not x Hx) as (_ & _ & Hh).
+  cbn [starts_hex]. rewrite Hh. apply Bool.andb_false_r.
+Qed.
+
+Lemma num_before_dot_digits : forall a b, all_digits a = true ->
+  before_dot (a ++ "."%char :: b) = a /\ after_dot (a ++ "."%char :: b) = Some b /\
+  count_dots (a ++ "."%char :: b) = count_dots ("."%char :: b).
+Proof.
+  induction a as [|c a IH]; intros b H.
+  - cbn [app before_dot after_dot]. cbn. auto.
+  - cbn [all_digits] in H. apply andb_prop in H. destruct H as [Hc Ha].
+    destruct (num_digit_not_sign c Hc) as (_ & _ & Hd).
+    cbn [app before_dot after_dot count_dots]. rewrite Hd.
+    destruct (IH b Ha) as (E1 & E2 & E3). rewrite E1, E2, E3. auto.
+Qed.
+
+Lemma num_nodot_digits : forall a, all_digits a = true ->
+  before_dot a = a /\ after_dot a = None /\ count_dots a = O.
+Proof.
+  induction a as [|c a IH]; intro H; [auto|].
+  cbn [all_digits] in H. apply andb_prop in H. destruct H as [Hc Ha].
+  destruct (num_digit_not_sign c Hc) as (_ & _ & Hd).
+  cbn [before_dot after_dot count_dots]. rewrite Hd.
+  destruct (IH Ha) as (E1 & E2 & E3). rewrite E1, E2, E3. auto.
+Qed.
+
+(** * [numeral] cut in two: sign/guard/exponent split, then the digit work *)
+
+Definition num_tail (neg : bool) (ip fp : str) (dots : nat) (eok : option Z) : num_result :=
+  let simple_mant := all_digits ip && all_digits fp && (dots <=? 1)%nat
+                     && negb ((List.length ip + List.length fp =? 0)%nat) in
+  if negb simple_mant then NumReject
+  else
+    match eok with
+    | None => NumReject
+    | Some e0 =>
+      let digits := strip_leading_zeros (ip ++ fp) in
+      match digits_val 0 digits with
+      | None => NumReject
+      | Some c =>
+        let e := e0 - Z.of_nat (List.length fp) in
+        let adj := e + Z.of_nat (List.length digits) in
+        if (15 <? List.length digits)%nat then NumUnknown
+        else if (c =? 0) then (if (Z.abs e0 <? 100000) then NumOk dzero else NumUnknown)
+        else if (adj <? -300) || (300 <? adj) then NumUnknown
+        else NumOk (dnorm (mkDec (if neg then - c else c) e))
+      end
+    end.
+
+Definition num_signed (neg : bool) (s : str) : str := if neg then "-"%char :: s else s.
+
+(* a sign, then a non-empty body made of digits and dots only *)
+Lemma num_numeral_plain_body : forall neg body,
+  num_plain body = true ->
+  (exists c r, body = c :: r /\ is_digit c = true) ->
+  numeral (num_signed neg body) =
+  num_tail neg (before_dot body) (match after_dot body with Some f => f | None => [] end)
+           (count_dots body) (Some 0).
+Proof.
+  intros neg body Hp (c & r & Hb & Hc).
+  pose proof (num_plain_no_e body 0%nat Hp) as He.
+  pose proof (num_plain_no_us body Hp) as Hu.
+  pose proof (num_plain_no_hex body Hp) as Hh.
+  destruct (num_digit_not_sign c Hc) as (Hm & Hpl & _).
+  destruct neg; cbn [num_signed].
+  - unfold numeral. cbn [Ascii.eqb Bool.eqb existsb]. change (Ascii.eqb "-" "_") with false.
+    cbn [orb]. rewrite Hu, Hh, He. cbn [orb]. rewrite Bool.andb_false_r. reflexivity.
+  - unfold numeral. rewrite Hb at 1. rewrite Hm, Hpl. rewrite Hu, Hh, He. cbn [orb].
+    rewrite Bool.andb_false_r. reflexivity.
+Qed.
+
+Definition num_join (ip fp : str) : str :=
+  match fp with [] => ip | _ => ip ++ "."%char :: fp end.
+
+Lemma num_tail_ok : forall neg ip fp dots ds v,
+  all_digits ip = true -> all_digits fp = true -> ip <> [] -> (dots <= 1)%nat ->
+  strip_leading_zeros (ip ++ fp) = ds -> digits_val 0 ds = Some v -> v <> 0 ->
+  (length ds <= 15)%nat ->
+  -300 <= - Z.of_nat (length fp) + Z.of_nat (length ds) <= 300 ->
+  num_tail neg ip fp dots (Some 0) =
+  NumOk (dnorm (mkDec (if neg then - v else v) (- Z.of_nat (length fp)))).
+Proof.
+  intros neg ip fp dots ds v Hip Hfp Hne Hdots Hds Hv Hv0 Hlen Hadj.
+  unfold num_tail. rewrite Hip, Hfp, Hds, Hv.
+  assert (E1 : (dots <=? 1)%nat = true) by (apply Nat.leb_le; exact Hdots).
+  assert (E2 : (length ip + length fp =? 0)%nat = false).
+  { apply Nat.eqb_neq. destruct ip; [congruence|]. cbn [length]. lia. }
+  assert (E3 : (15 <? length ds)%nat = false) by (apply Nat.ltb_ge; exact Hlen).
+  assert (E4 : (v =? 0) = false) by (apply Z.eqb_neq; exact Hv0).
+  rewrite E1, E2, E3, E4. cbn [andb negb].
+  rewrite Z.sub_0_l.
+  assert (E5 : (- Z.of_nat (length fp) + Z.of_nat (length ds) <? -300) = false) by (apply Z.ltb_ge; lia).
+  assert (E6 : (300 <? - Z.of_nat (length fp) + Z.of_nat (length ds)) = false) by (apply Z.ltb_ge; lia).
+  rewrite E5, E6. reflexivity.
+Qed.
+
+Lemma num_numeral_plain : forall neg ip fp ds v,
+  all_digits ip = true -> all_digits fp = true -> ip <> [] ->
+  strip_leading_zeros (ip ++ fp) = ds -> digits_val 0 ds = Some v -> v <> 0 ->
+  (length ds <= 15)%nat ->
+  -300 <= - Z.of_nat (length fp) + Z.of_nat (length ds) <= 300 ->
+  numeral (num_signed neg (num_join ip fp)) =
+  NumOk (dnorm (mkDec (if neg then - v else v) (- Z.of_nat (length fp)))).
+Proof.
+  intros neg ip fp ds v Hip Hfp Hne Hds Hv Hv0 Hlen Hadj.
+  assert (Hhead : exists c r, num_join ip fp = c :: r /\ is_digit c = true).
+  { destruct ip as [|c ip]; [congruence|].
+    cbn [all_digits] in Hip. apply andb_prop in Hip. destruct Hip as [Hc _].
+    unfold num_join. destruct fp; cbn [app]; eauto. }
+  assert (Hplain : num_plain (num_join ip fp) = true).
+  { unfold num_join. destruct fp as [|f fp]; [apply num_plain_digits, Hip|].
+    rewrite num_plain_app, (num_plain_digits ip Hip).
+    cbn [num_plain forallb andb]. change (num_dchar ".") with true. cbn [andb].
+    apply (num_plain_digits (f :: fp) Hfp). }
+  rewrite (num_numeral_plain_body neg _ Hplain Hhead).
+  unfold num_join. destruct fp as [|f fp].
+  - destruct (num_nodot_digits ip Hip) as (E1 & E2 & E3). rewrite E1, E2, E3.
+    apply (num_tail_ok neg ip [] 0%nat ds v); auto.
+  - destruct (num_before_dot_digits ip (f :: fp) Hip) as (E1 & E2 & E3). rewrite E1, E2, E3.
+    destruct (num_nodot_digits (f :: fp) Hfp) as (_ & _ & E4).
+    apply (num_tail_ok neg ip (f :: fp) _ ds v); auto.
+    change (count_dots ("."%char :: f :: fp)) with (1 + count_dots (f :: fp))%nat.
+    rewrite E4. lia.
+Qed.
+
+(** * Canonical form *)
+
+Lemma num_strip_step : forall k c e,
+  strip_zeros (S k) c e =
+  if c =? 0 then mkDec 0 0
+  else if Z.rem c 10 =? 0 then strip_zeros k (Z.quot c 10) (e + 1) else mkDec c e.
+Proof. reflexivity. Qed.
+
+Lemma num_quot10_nonzero : forall c, c <> 0 -> Z.rem c 10 = 0 -> Z.quot c 10 <> 0.
+Proof. intros c Hc Hr. pose proof (Z.quot_rem' c 10) as Q. rewrite Hr in Q. lia. Qed.
+
+Lemma num_strip_exp : forall k c e, c <> 0 -> e <= dexp (strip_zeros k c e).
+Proof.
+  induction k as [|k IH]; intros c e Hc; [cbn [strip_zeros dexp]; lia|].
+  rewrite num_strip_step.
+  destruct (c =? 0) eqn:E0; [apply Z.eqb_eq in E0; contradiction|].
+  destruct (Z.rem c 10 =? 0) eqn:E1; [|cbn [dexp]; lia].
+  apply Z.eqb_eq in E1.
+  pose proof (IH (Z.quot c 10) (e + 1) (num_quot10_nonzero c Hc E1)). lia.
+Qed.
+
+Lemma num_canonical : forall c e, dnorm (mkDec c e) = mkDec c e ->
+  (c = 0 -> e = 0) /\ (c <> 0 -> Z.rem c 10 <> 0).
+Proof.
+  intros c e H. unfold dnorm in H. cbn [coef dexp] in H. rewrite num_strip_step in H.
+  destruct (c =? 0) eqn:E0.
+  - apply Z.eqb_eq in E0. split; [intros _; congruence|intro; contradiction].
+  - apply Z.eqb_neq in E0. split; [intro; contradiction|intros _ Hr].
+    rewrite Hr in H. cbn [Z.eqb] in H.
+    pose proof (num_strip_exp (Z.to_nat (Z.log2 (Z.abs c))) (Z.quot c 10) (e + 1)
+                  (num_quot10_nonzero c E0 Hr)) as Hle.
+    rewrite H in Hle. cbn [dexp] in Hle. lia.
+Qed.
+
+Lemma num_strip_pow : forall n k c x, c <> 0 ->
+  strip_zeros (n + k) (c * 10 ^ Z.of_nat n) x = strip_zeros k c (x + Z.of_nat n).
+Proof.
+  induction n as [|n IH]; intros k c x Hc.
+  - cbn [Nat.add Z.of_nat]. rewrite Z.pow_0_r, Z.mul_1_r, Z.add_0_r. reflexivity.
+  - cbn [Nat.add]. rewrite num_strip_step.
+    rewrite Nat2Z.inj_succ, Z.pow_succ_r by lia.
+    assert (Hp : 0 < 10 ^ Z.of_nat n) by (apply Z.pow_pos_nonneg; lia).
+    replace (c * (10 * 10 ^ Z.of_nat n)) with (c * 10 ^ Z.of_nat n * 10) by ring.
+    destruct (c * 10 ^ Z.of_nat n * 10 =? 0) eqn:E0; [apply Z.eqb_eq in E0; nia|].
+    rewrite Z.rem_mul by lia. cbn [Z.eqb].
+    rewrite Z.quot_mul by lia.
+    rewrite IH by exact Hc. f_equal. lia.
+Qed.
+
+Lemma num_dnorm_scaled : forall c e, c <> 0 -> Z.rem c 10 <> 0 -> 0 <= e ->
+  dnorm (mkDec (c * 10 ^ e) 0) = mkDec c e.
+Proof.
+  intros c e Hc Hr He. unfold dnorm. cbn [coef dexp].
+  assert (Hp : 0 < 10 ^ e) by (apply Z.pow_pos_nonneg; lia).
+  assert (Hlog : e <= Z.log2 (Z.abs (c * 10 ^ e))).
+  { apply Z.log2_le_pow2; [nia|].
+    assert (2 ^ e <= 10 ^ e) by (apply Z.pow_le_mono_l; lia). nia. }
+  remember (Z.to_nat (Z.log2 (Z.abs (c * 10 ^ e)))) as L eqn:HL.
+  assert (HLe : (Z.to_nat e <= L)%nat) by lia.
+  replace (S L) with (Z.to_nat e + S (L - Z.to_nat e))%nat by lia.
+  replace (c * 10 ^ e) with (c * 10 ^ Z.of_nat (Z.to_nat e)) by (rewrite Z2Nat.id by exact He; reflexivity).
+  rewrite num_strip_pow by exact Hc.
+  rewrite num_strip_step.
+  destruct (c =? 0) eqn:E0; [apply Z.eqb_eq in E0; contradiction|].
+  destruct (Z.rem c 10 =? 0) eqn:E1; [apply Z.eqb_eq in E1; contradiction|].
+  f_equal. lia.
+Qed.
+
+(** * What [show_Z] prints for a non-zero coefficient without trailing zero *)
+
+Lemma num_show_signed : forall c, c <> 0 ->
+  show_Z c = num_signed (c <? 0) (show_Z (Z.abs c)).
+Proof. intros [|p|p] H; [contradiction|reflexivity|reflexivity]. Qed.
+
+Lemma num_show_abs : forall z, 0 < z -> exists h t,
+  show_Z z = h :: t /\ Ascii.eqb h "0"%char = false /\
+  all_digits (h :: t) = true /\ digits_val 0 (h :: t) = Some z /\
+  10 ^ Z.of_nat (length t) <= z < 10 ^ Z.of_nat (length (h :: t)).
+Proof.
+  intros [|p|p] Hz; try lia.
+  destruct (num_show_pos p) as (h & t & Hs & Hh & Hd & Hv).
+  exists h, t. repeat (split; [assumption|]).
+  split.
+  - pose proof Hd as Hd'. cbn [all_digits] in Hd'. apply andb_prop in Hd'. destruct Hd' as [Hc _].
+    pose proof Hv as Hv'. rewrite num_dv_cons in Hv' by exact Hc.
+    pose proof (num_digit_nonzero h Hc Hh) as H1.
+    apply num_dv_bounds in Hv'; [|lia].
+    assert (0 < 10 ^ Z.of_nat (length t)) by (apply Z.pow_pos_nonneg; lia). nia.
+  - apply num_dv_bounds in Hv; lia.
+Qed.
+
+Lemma num_show_last : forall z, 0 < z -> Z.rem z 10 <> 0 -> exists pre l,
+  show_Z z = pre ++ [l] /\ Ascii.eqb l "0"%char = false.
+Proof.
+  intros z Hz Hr.
+  destruct (num_show_abs z Hz) as (h & t & Hs & _ & Hd & Hv & _).
+  assert (Hne : h :: t <> []) by discriminate.
+  destruct (exists_last Hne) as (pre & l & Hl).
+  exists pre, l. split; [congruence|].
+  rewrite Hl in Hv. apply num_dv_app1 in Hv. destruct Hv as (v' & Hv' & Hld).
+  destruct (Ascii.eqb l "0"%char) eqn:E; [|reflexivity].
+  exfalso. apply Hr. rewrite (num_digit_zero l Hld E) in Hv'.
+  rewrite Hv', Z.add_0_r. apply Z.rem_mul. lia.
+Qed.
+
+(** * The printer, case by case *)
+
+Lemma num_rescale0 : forall c e, 0 <= e -> coef (rescale (mkDec c e) 0) = c * 10 ^ e.
+Proof.
+  intros c e He. unfold rescale. cbn [coef dexp].
+  destruct (0 =? e) eqn:E0.
+  - apply Z.eqb_eq in E0. subst e. cbn [coef]. rewrite Z.pow_0_r. lia.
+  - destruct (e <? 0) eqn:E1; [apply Z.ltb_lt in E1; lia|].
+    cbn [coef]. unfold pow10. rewrite Z.sub_0_r. reflexivity.
+Qed.
+
+Lemma num_dts_nonneg : forall c e, 0 <= e -> c <> 0 ->
+  dec_to_string (mkDec c e) = num_signed (c <? 0) (show_Z (Z.abs c * 10 ^ e)).
+Proof.
+  intros c e He Hc. unfold dec_to_string. cbn [dexp].
+  replace (0 <=? e) with true by (symmetry; apply Z.leb_le; exact He).
+  rewrite num_rescale0 by exact He.
+  assert (Hp : 0 < 10 ^ e) by (apply Z.pow_pos_nonneg; lia).
+  rewrite num_show_signed by nia.
+  rewrite Z.abs_mul, (Z.abs_eq (10 ^ e)) by lia.
+  f_equal. destruct (Z.ltb_spec c 0), (Z.ltb_spec (c * 10 ^ e) 0); try reflexivity; nia.
+Qed.
+
+(* the fractional layout of Decimal.String, as a function of the digits and the scale *)
+Definition num_frac_body (digits : str) (n : nat) : str :=
+  let '(ip, fp) :=
+    if (n <? length digits)%nat
+    then (firstn (length digits - n) digits, skipn (length digits - n) digits)
+    else (bs "0", repeat "0"%char (n - length digits) ++ digits) in
+  let fp' := trim_trailing_zeros fp in
+  match fp' with [] => ip | _ => ip ++ bs "." ++ fp' end.
+
+Lemma num_dts_neg : forall c e, e < 0 ->
+  dec_to_string (mkDec c e) =
+  num_signed (c <? 0) (num_frac_body (show_Z (Z.abs c)) (Z.to_nat (- e))).
+Proof.
+  intros c e He. unfold dec_to_string. cbn [coef dexp].
+  replace (0 <=? e) with false by (symmetry; apply Z.leb_gt; exact He).
+  unfold num_frac_body.
+  destruct (Z.to_nat (- e) <? length (show_Z (Z.abs c)))%nat; reflexivity.
+Qed.
+
+Lemma num_join_nonempty : forall ip pre l,
+  match pre ++ [l] with [] => ip | _ => ip ++ bs "." ++ (pre ++ [l]) end = num_join ip (pre ++ [l]).
+Proof. intros ip pre l. unfold num_join. destruct (pre ++ [l]); reflexivity. Qed.
+
+Lemma num_frac_body_spec : forall D h t pre l n,
+  D = h :: t -> D = pre ++ [l] ->
+  Ascii.eqb h "0"%char = false -> Ascii.eqb l "0"%char = false ->
+  all_digits D = true -> (1 <= n)%nat ->
+  exists ip fp,
+    num_frac_body D n = num_join ip fp /\
+    all_digits ip = true /\ all_digits fp = true /\ ip <> [] /\
+    strip_leading_zeros (ip ++ fp) = D /\ length fp = n.
+Proof.
+  intros D h t pre l n HD HDl Hh Hl Hd Hn.
+  unfold num_frac_body.
+  destruct (n <? length D)%nat eqn:E.
+  - apply Nat.ltb_lt in E.
+    set (k := (length D - n)%nat).
+    assert (Hk : (k <= length pre)%nat).
+    { unfold k. rewrite HDl at 1. rewrite app_length. cbn [length]. lia. }
+    assert (Hfp : skipn k D = skipn k pre ++ [l]).
+    { rewrite HDl at 1. rewrite skipn_app.
+      replace (k - length pre)%nat with 0%nat by lia. reflexivity. }
+    exists (firstn k D), (skipn k D).
+    pose proof (firstn_skipn k D) as Hfs.
+    assert (Hda : all_digits (firstn k D) && all_digits (skipn k D) = true).
+    { rewrite <- num_all_digits_app, Hfs. exact Hd. }
+    apply andb_prop in Hda. destruct Hda as [Hd1 Hd2].
+    split.
+    { rewrite Hfp. rewrite num_trim_last by exact Hl. apply num_join_nonempty. }
+    split; [exact Hd1|]. split; [exact Hd2|].
+    split.
+    { intro Hnil. apply (f_equal (@length ascii)) in Hnil.
+      rewrite firstn_length in Hnil. cbn [length] in Hnil. unfold k in Hnil. lia. }
+    split.
+    { rewrite Hfs, HD. apply num_strip_nz, Hh. }
+    rewrite skipn_length. unfold k. lia.
+  - apply Nat.ltb_ge in E.
+    exists (bs "0"), (repeat "0"%char (n - length D) ++ D).
+    split.
+    { assert (Hfp : repeat "0"%char (n - length D) ++ D =
+                    (repeat "0"%char (n - length D) ++ pre) ++ [l]).
+      { rewrite HDl at 2. apply app_assoc. }
+      rewrite Hfp. rewrite num_trim_last by exact Hl. apply num_join_nonempty. }
+    split; [reflexivity|].
+    split; [rewrite num_all_digits_app, num_all_digits_repeat, Hd; reflexivity|].
+    split; [discriminate|].
+    split.
+    { change (bs "0" ++ repeat "0"%char (n - length D) ++ D)
+        with ("0"%char :: repeat "0"%char (n - length D) ++ D).
+      cbn [strip_leading_zeros]. change (Ascii.eqb "0" "0") with true. cbn iota.
+      rewrite num_strip_zeros_repeat, HD. apply num_strip_nz, Hh. }
+    rewrite app_length, repeat_length. lia.
+Qed.
+
+Lemma num_show_length : forall z n, 0 < z -> z < 10 ^ Z.of_nat n -> (length (show_Z z) <= n)%nat.
+Proof.
+  intros z n Hz Hlt.
+  destruct (num_show_abs z Hz) as (h & t & Hs & _ & _ & _ & Hlo & _).
+  rewrite Hs. cbn [length].
+  assert (10 ^ Z.of_nat (length t) < 10 ^ Z.of_nat n) by lia.
+  apply Z.pow_lt_mono_r_iff in H; lia.
+Qed.
+
+(** * C09 *)
+
+Theorem C09_number_roundtrip : forall d : dec,
+  dnorm d = d ->
+  Z.abs (coef d) * 10 ^ Z.max 0 (dexp d) < 10 ^ 15 ->
+  -300 <= dexp d + Z.of_nat (length (show_Z (Z.abs (coef d)))) ->
+  numeral (dec_to_string d) = NumOk d.
+Proof.
+  intros [c e] Hn Hb Ha. cbn [coef dexp] in Hb, Ha.
+  destruct (num_canonical c e Hn) as [Hz Hnz].
+  destruct (Z.eq_dec c 0) as [Hc|Hc].
+  { subst c. rewrite (Hz eq_refl). vm_compute. reflexivity. }
+  specialize (Hnz Hc). clear Hz.
+  assert (Habs : 0 < Z.abs c) by lia.
+  assert (Hsgn : (if c <? 0 then - Z.abs c else Z.abs c) = c)
+    by (destruct (Z.ltb_spec c 0); lia).
+  destruct (Z_le_gt_dec 0 e) as [He|He].
+  - (* integer notation *)
+    rewrite num_dts_nonneg by assumption.
+    rewrite Z.max_r in Hb by exact He.
+    assert (Hp : 0 < 10 ^ e) by (apply Z.pow_pos_nonneg; lia).
+    set (z := Z.abs c * 10 ^ e) in *.
+    assert (Hzpos : 0 < z) by (unfold z; nia).
+    destruct (num_show_abs z Hzpos) as (h & t & Hs & Hh & Hd & Hv & _).
+    pose proof (num_show_length z 15 Hzpos Hb) as Hlen.
+    rewrite Hs in Hlen |- *.
+    etransitivity.
+    { apply (num_numeral_plain (c <? 0) (h :: t) [] (h :: t) z).
+      - exact Hd.
+      - reflexivity.
+      - discriminate.
+      - rewrite app_nil_r. apply num_strip_nz, Hh.
+      - exact Hv.
+      - lia.
+      - exact Hlen.
+      - cbn [length] in Hlen |- *. lia. }
+    f_equal. cbn [length Z.of_nat Z.opp].
+    replace (if c <? 0 then - z else z) with (c * 10 ^ e)
+      by (unfold z; destruct (Z.ltb_spec c 0); [rewrite Z.abs_neq|rewrite Z.abs_eq]; lia).
+    apply num_dnorm_scaled; assumption.
+  - (* fractional notation *)
+    rewrite num_dts_neg by lia.
+    rewrite Z.max_l, Z.pow_0_r, Z.mul_1_r in Hb by lia.
+    destruct (num_show_abs (Z.abs c) Habs) as (h & t & Hs & Hh & Hd & Hv & _).
+    assert (Hr : Z.rem (Z.abs c) 10 <> 0).
+    { rewrite Z.rem_abs_l by lia. lia. }
+    destruct (num_show_last (Z.abs c) Habs Hr) as (pre & l & Hsl & Hl).
+    pose proof (num_show_length (Z.abs c) 15 Habs Hb) as Hlen.
+    set (D := show_Z (Z.abs c)) in *.
+    assert (Hd' : all_digits D = true) by (rewrite Hs; exact Hd).
+    destruct (num_frac_body_spec D h t pre l (Z.to_nat (- e)) Hs Hsl Hh Hl Hd' ltac:(lia))
+      as (ip & fp & Hbody & Hip & Hfp & Hne & Hstrip & Hfl).
+    rewrite Hbody.
+    rewrite (num_numeral_plain (c <? 0) ip fp D (Z.abs c)); try assumption.
+    + rewrite Hsgn, Hfl. replace (- Z.of_nat (Z.to_nat (- e))) with e by lia.
+      rewrite Hn. reflexivity.
+    + rewrite Hs. exact Hv.
+    + lia.
+    + rewrite Hfl. lia.
+Qed.
+
+(* every exponent: at most 15 printed significant digits, scale down to -300 *)
+Corollary C09_number_roundtrip_box : forall d : dec,
+  dnorm d = d ->
+  Z.abs (coef d) * 10 ^ Z.max 0 (dexp d) < 10 ^ 15 ->
+  -300 <= dexp d ->
+  numeral (dec_to_string d) = NumOk d.
+Proof.
+  intros d Hn Hb He. apply C09_number_roundtrip; [exact Hn|exact Hb|lia].
+Qed.
+
+Corollary C09_number_roundtrip_simple : forall d : dec,
+  dnorm d = d ->
+  Z.abs (coef d) < 10 ^ 15 ->
+  -300 <= dexp d <= 0 ->
+  numeral (dec_to_string d) = NumOk d.
+Proof.
+  intros d Hn Hb He. apply C09_number_roundtrip_box; [exact Hn| |lia].
+  rewrite Z.max_l, Z.pow_0_r by lia. lia.
+Qed.
+
+Example C09_number_ex_100 :
+  dec_to_string (mkDec 1 2) = bs "100" /\ numeral (bs "100") = NumOk (mkDec 1 2).
+Proof. vm_compute. split; reflexivity. Qed.
+
+Example C09_number_ex_neg_frac :
+  dec_to_string (mkDec (-1234) (-2)) = bs "-12.34" /\ numeral (bs "-12.34") = NumOk (mkDec (-1234) (-2)).
+Proof. vm_compute. split; reflexivity. Qed.
+
+Example C09_number_ex_small :
+  dec_to_string (mkDec 5 (-3)) = bs "0.005" /\ numeral (bs "0.005") = NumOk (mkDec 5 (-3)).
+Proof. vm_compute. split; reflexivity. Qed.
+
+Example C09_number_ex_zero :
+  dec_to_string dzero = bs "0" /\ numeral (bs "0") = NumOk dzero.
+Proof. vm_compute. split; reflexivity. Qed.
+
+Example C09_number_ex_15_digits :
+  numeral (dec_to_string (mkDec 999999999999999 0)) = NumOk (mkDec 999999999999999 0) /\
+  numeral (dec_to_string (mkDec (-123456789012345) (-20))) = NumOk (mkDec (-123456789012345) (-20)).
+Proof. vm_compute. split; reflexivity. Qed.
+
+(* the side conditions are tight: one more digit, or one more place, and the model declines *)
+Example C09_number_16_digits_declined :
+  numeral (dec_to_string (mkDec 1 15)) = NumUnknown /\
+  numeral (dec_to_string (mkDec 1234567890123456 (-3))) = NumUnknown.
+Proof. vm_compute. split; reflexivity. Qed.
+
+Example C09_number_adj_limit :
+  numeral (dec_to_string (mkDec 1 (-301))) = NumOk (mkDec 1 (-301)) /\
+  numeral (dec_to_string (mkDec 1 (-302))) = NumUnknown.
+Proof. vm_compute. split; reflexivity. Qed.
+
+(* without [dnorm d = d] the value comes back, the representation does not *)
+Example C09_number_noncanonical_refuted :
+  dec_to_string (mkDec 10 (-1)) = bs "1" /\
+  numeral (dec_to_string (mkDec 10 (-1))) = NumOk (mkDec 1 0) /\
+  numeral (dec_to_string (mkDec 0 3)) = NumOk dzero.
+Proof. vm_compute. repeat split; reflexivity. Qed.
+
+(* ================================================================== *)
+(** * 5/6. Key-only paths: reparse, fixed point, userString            *)
+(* ================================================================== *)
+(* Reparse.v — C09 parts 5/6: key-only paths: Sprint output parses again to
+   the same keys, Sprint is a fixed point, the userString is the query text. *)
+
+
+Definition key_piece (kq : str * bool) : str := fst kq ++ (if snd kq then bs "?" else []).
+Definition key_text (root : bool) (ks : list (str * bool)) : str :=
+  (if root then bs "$" else bs "@") ++ concat (map (fun kq => bs "." ++ key_piece kq) ks).
+Definition key_ops (ks : list (str * bool)) : list pathop :=
+  map (fun kq => PIdent (fst kq) (snd kq) (key_piece kq)) ks.
+(* ops is a list of keys, with arbitrary userStrings *)
+Definition ops_keys (ops : list pathop) (ks : list (str * bool)) : Prop :=
+  Forall2 (fun o kq => exists us, o = PIdent (fst kq) (snd kq) us) ops ks.
+(* a key the lexer reads back as one identifier token *)
+Definition good_key (uni : uclass) (kq : str * bool) : Prop :=
+  fst kq <> [] /\
+  (exists cs, chars_fuel (S (length (fst kq))) (fst kq) = Some cs /\
+              forallb (fun rb => is_ident_rune uni (fst rb)) cs = true) /\
+  (snd kq = false -> forall k', fst kq <> k' ++ bs "?").
+
+(* ------------------------------------------------------------------ *)
+(** * UTF-8 decoding: a successful decode only looks at its own bytes   *)
+(* ------------------------------------------------------------------ *)
+
+Ltac rp_break :=
+  repeat match goal with
+         | |- context [if ?c then _ else _] => destruct c eqn:?
+         | |- context [match ?l with [] => _ | _ :: _ => _ end] => destruct l
+         end.
+
+Lemma rp_decode_rune_width : forall s r w,
+  s <> [] -> decode_rune s = (r, w) -> (1 <= w)%nat.
+Proof.
+  intros s r w Hne. destruct s as [|b0 t]; [congruence|].
+  unfold decode_rune. cbv zeta. rp_break; intros H; inversion H; lia.
+Qed.
+
+Lemma rp_decode_rune_app : forall s t r w,
+  s <> [] ->
+  decode_rune s = (r, w) ->
+  (r =? rune_error) && (w =? 1)%nat = false ->
+  decode_rune (s ++ t) = (r, w) /\ (w <= length s)%nat /\ (1 <= w)%nat.
+Proof.
+  intros s t r w Hne H E. revert H.
+  destruct s as [|b0 [|b1 [|b2 [|b3 s]]]]; [congruence| | | |]; cbn [app length]; unfold decode_rune; cbv zeta;
+    rp_break; intros H; inversion H; subst r w;
+    try (exfalso; discriminate E);
+    (split; [reflexivity|split; lia]).
+Qed.
+
+Lemma rp_chars_fuel_S : forall k s, s <> [] ->
+  chars_fuel (S k) s =
+  let '(r, w) := decode_rune s in
+  if (r =? rune_error) && (w =? 1)%nat then None
+  else if r =? 0 then None
+  else match chars_fuel k (skipn w s) with
+       | Some cs => Some ((r, firstn w s) :: cs)
+       | None => None
+       end.
+Proof. intros k [|c s] H; [congruence|reflexivity]. Qed.
+
+Lemma rp_chars_fuel_nil : forall n, chars_fuel n [] = Some [].
+Proof. destruct n; reflexivity. Qed.
+
+(* ------------------------------------------------------------------ *)
+(** * chars_fuel: fuel independence and compositionality                *)
+(* ------------------------------------------------------------------ *)
+
+Lemma rp_chars_fuel_indep : forall n m s,
+  (length s < n)%nat -> (length s < m)%nat -> chars_fuel n s = chars_fuel m s.
+Proof.
+  induction n as [|n IH]; intros m s Hn Hm; [lia|].
+  destruct m as [|m]; [lia|].
+  destruct s as [|c s]; [reflexivity|].
+  assert (Hne : c :: s <> []) by discriminate.
+  rewrite (rp_chars_fuel_S n _ Hne), (rp_chars_fuel_S m _ Hne).
+  destruct (decode_rune (c :: s)) as [r w] eqn:D.
+  pose proof (rp_decode_rune_width _ _ _ Hne D) as Hw.
+  assert (Hl : (length (skipn w (c :: s)) < length (c :: s))%nat).
+  { rewrite skipn_length. cbn [length]. lia. }
+  rewrite (IH m (skipn w (c :: s))); [reflexivity| |]; cbn [length] in *; lia.
+Qed.
+
+(** the bytes of the runes are the input *)
+Lemma rp_chars_fuel_bytes : forall n s cs,
+  chars_fuel n s = Some cs -> (length s < n)%nat -> concat (map snd cs) = s.
+Proof.
+  induction n as [|n IH]; intros s cs H Hn; [lia|].
+  destruct s as [|c s].
+  - cbn in H. inversion H. reflexivity.
+  - assert (Hne : c :: s <> []) by discriminate.
+    rewrite (rp_chars_fuel_S n _ Hne) in H.
+    destruct (decode_rune (c :: s)) as [r w] eqn:D.
+    pose proof (rp_decode_rune_width _ _ _ Hne D) as Hw.
+    destruct ((r =? rune_error) && (w =? 1)%nat); [discriminate|].
+    destruct (r =? 0); [discriminate|].
+    destruct (chars_fuel n (skipn w (c :: s))) as [l|] eqn:E; [|discriminate].
+    inversion H; subst cs. cbn [map concat snd].
+    rewrite (IH _ _ E).
+    + apply firstn_skipn.
+    + rewrite skipn_length. cbn [length] in *. lia.
+Qed.
+
+Lemma rp_chars_fuel_nonempty : forall n s cs,
+  chars_fuel (S n) s = Some cs -> s <> [] -> cs <> [].
+Proof.
+  intros n s cs H Hne. rewrite (rp_chars_fuel_S n _ Hne) in H.
+  destruct (decode_rune s) as [r w].
+  destruct ((r =? rune_error) && (w =? 1)%nat); [discriminate|].
+  destruct (r =? 0); [discriminate|].
+  destruct (chars_fuel n (skipn w s)); [|discriminate].
+  inversion H. discriminate.
+Qed.
+
+(** Compositionality: decoding [a ++ b] is decoding [a] then [b], provided
+    [a] decodes on its own. *)
+Lemma rp_chars_fuel_app : forall n a ca b m,
+  chars_fuel n a = Some ca -> (length a < n)%nat -> (length (a ++ b) < m)%nat ->
+  chars_fuel m (a ++ b) = option_map (app ca) (chars_fuel (S (length b)) b).
+Proof.
+  induction n as [|n IH]; intros a ca b m H Hn Hm; [lia|].
+  destruct a as [|c a].
+  - cbn in H. inversion H; subst ca. cbn [app] in *.
+    rewrite (rp_chars_fuel_indep m (S (length b)) b) by lia.
+    destruct (chars_fuel (S (length b)) b); reflexivity.
+  - assert (Hne : c :: a <> []) by discriminate.
+    assert (Hne' : (c :: a) ++ b <> []) by discriminate.
+    rewrite (rp_chars_fuel_S n _ Hne) in H.
+    destruct (decode_rune (c :: a)) as [r w] eqn:D.
+    destruct ((r =? rune_error) && (w =? 1)%nat) eqn:E1; [discriminate|].
+    destruct (r =? 0) eqn:E2; [discriminate|].
+    destruct (chars_fuel n (skipn w (c :: a))) as [l|] eqn:E3; [|discriminate].
+    inversion H; subst ca.
+    destruct (rp_decode_rune_app _ b _ _ Hne D E1) as (D' & Hw & Hw1).
+    destruct m as [|m]; [lia|].
+    rewrite (rp_chars_fuel_S m _ Hne'), D', E1, E2.
+    rewrite skipn_app, firstn_app.
+    replace (w - length (c :: a))%nat with O by lia.
+    cbn [skipn firstn]. rewrite app_nil_r.
+    rewrite (IH _ _ b m E3).
+    + destruct (chars_fuel (S (length b)) b); reflexivity.
+    + rewrite skipn_length. cbn [length] in *. lia.
+    + rewrite app_length, skipn_length. rewrite app_length in Hm. cbn [length] in *. lia.
+Qed.
+
+(** the special case used everywhere: fuel as [chars] supplies it *)
+Lemma rp_chars_app : forall a ca b,
+  chars_fuel (S (length a)) a = Some ca ->
+  chars_fuel (S (length (a ++ b))) (a ++ b) = option_map (app ca) (chars_fuel (S (length b)) b).
+Proof. intros a ca b H. apply (rp_chars_fuel_app _ _ _ _ _ H); lia. Qed.
+
+(** one ASCII byte (not NUL) is one rune *)
+Lemma rp_chars_fuel_ascii : forall k c s,
+  0 < byte c < 128 ->
+  chars_fuel (S k) (c :: s) = option_map (cons (byte c, [c])) (chars_fuel k s).
+Proof.
+  intros k c s Hc.
+  rewrite rp_chars_fuel_S by discriminate.
+  unfold decode_rune.
+  replace (byte c <? 128) with true by (symmetry; apply Z.ltb_lt; lia).
+  replace (byte c =? rune_error) with false by (symmetry; apply Z.eqb_neq; unfold rune_error; lia).
+  replace (byte c =? 0) with false by (symmetry; apply Z.eqb_neq; lia).
+  cbn [andb skipn firstn].
+  destruct (chars_fuel k s); reflexivity.
+Qed.
+
+Lemma rp_chars_ascii : forall c s,
+  0 < byte c < 128 ->
+  chars_fuel (S (length (c :: s))) (c :: s) = option_map (cons (byte c, [c])) (chars_fuel (S (length s)) s).
+Proof. intros c s Hc. cbn [length]. apply rp_chars_fuel_ascii, Hc. Qed.
+
+(* ------------------------------------------------------------------ *)
+(** * The character stream of a key path                                *)
+(* ------------------------------------------------------------------ *)
+
+Definition rp_runes (k : str) : list (Z * str) :=
+  match chars_fuel (S (length k)) k with Some cs => cs | None => [] end.
+Definition rp_key_cs (kq : str * bool) : list (Z * str) :=
+  rp_runes (fst kq) ++ (if snd kq then [(63, bs "?")] else []).
+Definition rp_keys_cs (ks : list (str * bool)) : list (Z * str) :=
+  concat (map (fun kq => (46, bs ".") :: rp_key_cs kq) ks).
+Definition rp_keys_text (ks : list (str * bool)) : str :=
+  concat (map (fun kq => bs "." ++ key_piece kq) ks).
+Definition rp_root_rune (root : bool) : Z := if root then 36 else 64.
+Definition rp_root_str (root : bool) : str := if root then bs "$" else bs "@".
+
+Lemma rp_good_key_runes : forall uni kq, good_key uni kq ->
+  chars_fuel (S (length (fst kq))) (fst kq) = Some (rp_runes (fst kq)) /\
+  forallb (fun rb => is_ident_rune uni (fst rb)) (rp_runes (fst kq)) = true /\
+  rp_runes (fst kq) <> [] /\
+  concat (map snd (rp_runes (fst kq))) = fst kq.
+Proof.
+  intros uni kq (Hne & (cs & Hcs & Hall) & _).
+  unfold rp_runes. rewrite Hcs. repeat split; auto.
+  - eapply rp_chars_fuel_nonempty; eauto.
+  - eapply rp_chars_fuel_bytes; eauto.
+Qed.
+
+Lemma rp_chars_keys : forall uni ks, Forall (good_key uni) ks ->
+  chars_fuel (S (length (rp_keys_text ks))) (rp_keys_text ks) = Some (rp_keys_cs ks).
+Proof.
+  intros uni ks H. induction H as [|kq ks Hk Hks IH]; [reflexivity|].
+  destruct (rp_good_key_runes _ _ Hk) as (Hr & _).
+  unfold rp_keys_text, rp_keys_cs. cbn [map concat].
+  fold (rp_keys_text ks). fold (rp_keys_cs ks).
+  change (bs ".") with ["."%char]. cbn [app].
+  rewrite rp_chars_ascii by (vm_compute; split; reflexivity).
+  unfold key_piece, rp_key_cs. rewrite <- !app_assoc.
+  rewrite (rp_chars_app _ _ _ Hr).
+  destruct (snd kq).
+  - change (bs "?") with ["?"%char]. cbn [app].
+    rewrite rp_chars_ascii by (vm_compute; split; reflexivity).
+    rewrite IH. reflexivity.
+  - cbn [app]. rewrite IH. reflexivity.
+Qed.
+
+Lemma rp_chars_key_text : forall uni root ks, Forall (good_key uni) ks ->
+  chars (key_text root ks) = Some ((rp_root_rune root, rp_root_str root) :: rp_keys_cs ks).
+Proof.
+  intros uni root ks H. unfold chars, key_text. fold (rp_keys_text ks).
+  assert (E : chars_fuel (S (length ((if root then bs "$" else bs "@") ++ rp_keys_text ks)))
+                ((if root then bs "$" else bs "@") ++ rp_keys_text ks)
+              = Some ((rp_root_rune root, rp_root_str root) :: rp_keys_cs ks)).
+  { destruct root.
+    - change (bs "$") with ["$"%char]. cbn [app].
+      rewrite rp_chars_ascii by (vm_compute; split; reflexivity).
+      rewrite (rp_chars_keys _ _ H). reflexivity.
+    - change (bs "@") with ["@"%char]. cbn [app].
+      rewrite rp_chars_ascii by (vm_compute; split; reflexivity).
+      rewrite (rp_chars_keys _ _ H). reflexivity. }
+  rewrite E. destruct root; reflexivity.
+Qed.
+
+(* ------------------------------------------------------------------ *)
+(** * Rune facts (re-checked on the generated table)                    *)
+(* ------------------------------------------------------------------ *)
+
+Lemma rp_invalid_36 : zmem 36 invalid_runes = true. Proof. vm_compute. reflexivity. Qed.
+Lemma rp_invalid_46 : zmem 46 invalid_runes = true. Proof. vm_compute. reflexivity. Qed.
+Lemma rp_invalid_64 : zmem 64 invalid_runes = true. Proof. vm_compute. reflexivity. Qed.
+Lemma rp_invalid_63 : zmem 63 invalid_runes = false. Proof. vm_compute. reflexivity. Qed.
+
+Lemma rp_ident_36 : forall uni, is_ident_rune uni 36 = false.
+Proof. intros uni. unfold is_ident_rune. rewrite rp_invalid_36. reflexivity. Qed.
+Lemma rp_ident_46 : forall uni, is_ident_rune uni 46 = false.
+Proof. intros uni. unfold is_ident_rune. rewrite rp_invalid_46. reflexivity. Qed.
+Lemma rp_ident_64 : forall uni, is_ident_rune uni 64 = false.
+Proof. intros uni. unfold is_ident_rune. rewrite rp_invalid_64. reflexivity. Qed.
+Lemma rp_ident_63 : forall uni, is_ident_rune uni 63 = true.
+Proof. intros uni. unfold is_ident_rune. rewrite rp_invalid_63. reflexivity. Qed.
+Lemma rp_ident_eof : forall uni, is_ident_rune uni (-1) = false.
+Proof. intros uni. unfold is_ident_rune. destruct (zmem (-1) invalid_runes); reflexivity. Qed.
+
+Lemma rp_ident_not_ws : forall uni c, is_ident_rune uni c = true -> is_ws c = false.
+Proof.
+  intros uni c H. destruct (is_ws c) eqn:W; [|reflexivity]. exfalso.
+  unfold is_ws in W.
+  repeat (apply orb_true_iff in W; destruct W as [W|W]);
+    apply Z.eqb_eq in W; subst c; unfold is_ident_rune in H;
+    match type of H with (if ?z || _ then _ else _) = _ => destruct z end; discriminate H.
+Qed.
+
+(* ------------------------------------------------------------------ *)
+(** * tokens_fuel: step lemmas and fuel monotonicity                    *)
+(* ------------------------------------------------------------------ *)
+
+Lemma rp_span_ident_app : forall uni cs1 cs2,
+  forallb (fun rb => is_ident_rune uni (fst rb)) cs1 = true ->
+  is_ident_rune uni (peek cs2) = false ->
+  span_ident uni (cs1 ++ cs2) = (concat (map snd cs1), cs2).
+Proof.
+  intros uni cs1 cs2 H1 H2. induction cs1 as [|[c b] cs1 IH].
+  - cbn [app map concat]. destruct cs2 as [|[c b] cs2]; [reflexivity|].
+    cbn [peek] in H2. cbn [span_ident]. rewrite H2. reflexivity.
+  - cbn [forallb fst] in H1. apply andb_true_iff in H1. destruct H1 as [Hc H1].
+    cbn [app span_ident map concat snd]. rewrite Hc, (IH H1). reflexivity.
+Qed.
+
+(** an identifier token: a non-empty run of identifier runes, up to a
+    non-identifier rune or EOF *)
+Lemma rp_tokens_ident : forall uni k cs1 cs2,
+  cs1 <> [] ->
+  forallb (fun rb => is_ident_rune uni (fst rb)) cs1 = true ->
+  is_ident_rune uni (peek cs2) = false ->
+  tokens_fuel uni (S k) (cs1 ++ cs2)
+  = option_map (cons (mkTok TIdent (concat (map snd cs1)) (peek cs2))) (tokens_fuel uni k cs2).
+Proof.
+  intros uni k cs1 cs2 Hne H1 H2.
+  pose proof (rp_span_ident_app uni cs1 cs2 H1 H2) as Hs.
+  destruct cs1 as [|[c b] cs1]; [congruence|].
+  cbn [forallb fst] in H1. apply andb_true_iff in H1. destruct H1 as [Hc H1].
+  cbn [app] in *. cbn [tokens_fuel].
+  rewrite (rp_ident_not_ws _ _ Hc), Hc, Hs. reflexivity.
+Qed.
+
+(** a single-character token *)
+Lemma rp_tokens_ch : forall uni k c b cs,
+  is_ws c = false -> is_ident_rune uni c = false ->
+  c <> 34 -> c <> 39 -> c <> 47 ->
+  tokens_fuel uni (S k) ((c, b) :: cs)
+  = option_map (cons (mkTok (TCh c) b (peek cs))) (tokens_fuel uni k cs).
+Proof.
+  intros uni k c b cs Hw Hi H34 H39 H47. cbn [tokens_fuel].
+  rewrite Hw, Hi.
+  apply Z.eqb_neq in H34, H39, H47. rewrite H34, H39, H47. reflexivity.
+Qed.
+
+(** white space is skipped *)
+Lemma rp_tokens_ws : forall uni k c b cs,
+  is_ws c = true -> tokens_fuel uni (S k) ((c, b) :: cs) = tokens_fuel uni k cs.
+Proof. intros uni k c b cs Hw. cbn [tokens_fuel]. rewrite Hw. reflexivity. Qed.
+
+Lemma rp_tokens_fuel_mono : forall uni n m cs ts,
+  tokens_fuel uni n cs = Some ts -> (n <= m)%nat -> tokens_fuel uni m cs = Some ts.
+Proof.
+  intros uni. induction n as [|n IH]; intros m cs ts H Hm; [discriminate|].
+  destruct m as [|m]; [lia|].
+  assert (IH' : forall r ts', tokens_fuel uni n r = Some ts' -> tokens_fuel uni m r = Some ts').
+  { intros r ts' Hr. apply (IH m r ts' Hr). lia. }
+  assert (IHo : forall (f : list token -> list token) r ts', option_map f (tokens_fuel uni n r) = Some ts' ->
+                                option_map f (tokens_fuel uni m r) = Some ts').
+  { intros f r ts' Hr. destruct (tokens_fuel uni n r) as [l|] eqn:E; [|discriminate].
+    rewrite (IH' _ _ E). exact Hr. }
+  clear IH.
+  destruct cs as [|[c b] cs]; [exact H|].
+  revert H. cbn [tokens_fuel].
+  repeat match goal with
+         | |- context [if ?c then _ else _] => destruct c
+         | |- context [let (_, _) := ?p in _] => destruct p
+         | |- context [match ?o with Some _ => _ | None => _ end] =>
+             match o with
+             | tokens_fuel _ _ _ => fail 1
+             | _ => destruct o
+             end
+         end; auto; try discriminate.
+Qed.
+
+(* ------------------------------------------------------------------ *)
+(** * The token stream of a key path                                    *)
+(* ------------------------------------------------------------------ *)
+
+Fixpoint rp_key_toks (ks : list (str * bool)) : list token :=
+  match ks with
+  | [] => []
+  | kq :: ks' =>
+    mkTok (TCh 46) (bs ".") (peek (rp_key_cs kq ++ rp_keys_cs ks'))
+    :: mkTok TIdent (key_piece kq) (peek (rp_keys_cs ks'))
+    :: rp_key_toks ks'
+  end.
+
+Definition rp_root_tok (root : bool) (ks : list (str * bool)) : token :=
+  mkTok (TCh (rp_root_rune root)) (rp_root_str root) (peek (rp_keys_cs ks)).
+
+Lemma rp_peek_keys_cs : forall ks, peek (rp_keys_cs ks) = -1 \/ peek (rp_keys_cs ks) = 46.
+Proof. intros [|kq ks]; [left|right]; reflexivity. Qed.
+
+Lemma rp_peek_keys_cs_stop : forall uni ks, is_ident_rune uni (peek (rp_keys_cs ks)) = false.
+Proof.
+  intros uni ks. destruct (rp_peek_keys_cs ks) as [E|E]; rewrite E.
+  - apply rp_ident_eof.
+  - apply rp_ident_46.
+Qed.
+
+Lemma rp_good_key_cs : forall uni kq, good_key uni kq ->
+  rp_key_cs kq <> [] /\
+  forallb (fun rb => is_ident_rune uni (fst rb)) (rp_key_cs kq) = true /\
+  concat (map snd (rp_key_cs kq)) = key_piece kq.
+Proof.
+  intros uni kq Hk. destruct (rp_good_key_runes _ _ Hk) as (_ & Hall & Hne & Hb).
+  unfold rp_key_cs, key_piece. repeat split.
+  - destruct (rp_runes (fst kq)); [congruence|discriminate].
+  - rewrite forallb_app, Hall. destruct (snd kq); [|reflexivity].
+    cbn [forallb fst andb]. rewrite rp_ident_63. reflexivity.
+  - rewrite map_app, concat_app, Hb. destruct (snd kq); reflexivity.
+Qed.
+
+Lemma rp_tokens_keys : forall uni ks, Forall (good_key uni) ks ->
+  forall fuel, (length (rp_keys_cs ks) < fuel)%nat ->
+  tokens_fuel uni fuel (rp_keys_cs ks) = Some (rp_key_toks ks).
+Proof.
+  intros uni ks H. induction H as [|kq ks Hk Hks IH]; intros fuel Hf.
+  - destruct fuel; [lia|reflexivity].
+  - destruct (rp_good_key_cs _ _ Hk) as (Hne & Hall & Hb).
+    unfold rp_keys_cs in *. cbn [map concat] in *. fold (rp_keys_cs ks) in *.
+    cbn [app length] in Hf. rewrite app_length in Hf.
+    assert (Hl : (1 <= length (rp_key_cs kq))%nat).
+    { destruct (rp_key_cs kq); [congruence|cbn [length]; lia]. }
+    destruct fuel as [|[|fuel]]; [lia|lia|].
+    cbn [app].
+    rewrite rp_tokens_ch; [| reflexivity | apply rp_ident_46 | discriminate | discriminate | discriminate].
+    rewrite (rp_tokens_ident uni fuel _ _ Hne Hall (rp_peek_keys_cs_stop uni ks)).
+    rewrite IH by lia. rewrite Hb. reflexivity.
+Qed.
+
+Lemma rp_visible_keys : forall uni ks, filter (visible uni) (rp_key_toks ks) = rp_key_toks ks.
+Proof.
+  intros uni ks. induction ks as [|kq ks IH]; [reflexivity|].
+  cbn [rp_key_toks filter]. unfold visible at 1 2. cbn [tk].
+  change (is_print uni 46) with true. cbv iota. rewrite IH. reflexivity.
+Qed.
+
+Lemma rp_lex_key_text : forall uni root ks, Forall (good_key uni) ks ->
+  lex uni (key_text root ks) = Some (rp_root_tok root ks :: rp_key_toks ks).
+Proof.
+  intros uni root ks H. unfold lex. rewrite (rp_chars_key_text _ root _ H).
+  rewrite rp_tokens_ch.
+  - rewrite (rp_tokens_keys _ _ H) by (cbn [length]; lia).
+    cbn [option_map filter]. unfold visible at 1, rp_root_tok. cbn [tk].
+    replace (is_print uni (rp_root_rune root)) with true by (destruct root; reflexivity).
+    rewrite rp_visible_keys. reflexivity.
+  - destruct root; reflexivity.
+  - destruct root; [apply rp_ident_36|apply rp_ident_64].
+  - destruct root; discriminate.
+  - destruct root; discriminate.
+  - destruct root; discriminate.
+Qed.
+
+(* ------------------------------------------------------------------ *)
+(** * The parser on that token stream                                   *)
+(* ------------------------------------------------------------------ *)
+
+Lemma rp_strip_qmark_piece : forall kq,
+  (snd kq = false -> forall k', fst kq <> k' ++ bs "?") ->
+  strip_qmark (key_piece kq) = (fst kq, snd kq).
+Proof.
+  intros [k q] H. cbn [fst snd] in *. unfold key_piece, strip_qmark. cbn [fst snd].
+  destruct q.
+  - rewrite rev_app_distr. cbn. rewrite rev_involutive. reflexivity.
+  - rewrite app_nil_r. destruct (rev k) as [|c r] eqn:E; [reflexivity|].
+    destruct (Ascii.eqb c "?"%char) eqn:Ec; [|reflexivity].
+    exfalso. apply Ascii.eqb_eq in Ec. subst c.
+    apply (H eq_refl (rev r)).
+    rewrite <- (rev_involutive k), E. reflexivity.
+Qed.
+
+Lemma rp_path_loop_eof : forall k root isf me ops us rest,
+  path_loop (S k) root isf me ops us CEOF rest = Ok (CZero, rest, Path false root isf me ops us).
+Proof. reflexivity. Qed.
+
+Lemma rp_path_loop_dot : forall k root isf me ops us b n rest,
+  path_loop (S k) root isf me ops us (CTok (mkTok (TCh 46) b n)) rest
+  = let (c, r) := scan rest in path_loop k root isf me ops (us ++ ch_str 46) c r.
+Proof. reflexivity. Qed.
+
+Lemma rp_path_loop_key : forall k root isf me ops us txt n rest,
+  n <> 40 ->
+  path_loop (S k) root isf me ops us (CTok (mkTok TIdent txt n)) rest
+  = let '(name, q) := strip_qmark txt in
+    let (c, r) := scan rest in
+    path_loop k root isf me (ops ++ [PIdent name q txt]) (us ++ txt) c r.
+Proof.
+  intros k root isf me ops us txt n rest Hn. apply Z.eqb_neq in Hn.
+  cbn [path_loop is_ch is_ident_tok tk tnext ttext orb]. rewrite Hn. reflexivity.
+Qed.
+
+Lemma rp_path_loop_keys : forall uni ks, Forall (good_key uni) ks ->
+  forall fuel root isf me ops us, (2 * length ks + 1 <= fuel)%nat ->
+  (let (c, r) := scan (rp_key_toks ks) in path_loop fuel root isf me ops us c r)
+  = Ok (CZero, [], Path false root isf me (ops ++ key_ops ks) (us ++ rp_keys_text ks)).
+Proof.
+  intros uni ks H. induction H as [|kq ks Hk Hks IH]; intros fuel root isf me ops us Hf.
+  - destruct fuel as [|fuel]; [cbn [length] in Hf; lia|].
+    cbn [rp_key_toks scan]. rewrite rp_path_loop_eof.
+    unfold key_ops, rp_keys_text. cbn [map concat]. rewrite !app_nil_r. reflexivity.
+  - cbn [length] in Hf. destruct fuel as [|[|fuel]]; [lia|lia|].
+    cbn [rp_key_toks scan].
+    rewrite rp_path_loop_dot. cbn [scan].
+    rewrite rp_path_loop_key
+      by (destruct (rp_peek_keys_cs ks) as [E|E]; rewrite E; discriminate).
+    destruct Hk as (_ & _ & Hq). rewrite (rp_strip_qmark_piece _ Hq).
+    rewrite IH by lia.
+    unfold key_ops, rp_keys_text. cbn [map concat].
+    rewrite <- !app_assoc. reflexivity.
+Qed.
+
+Lemma rp_key_toks_length : forall ks, length (rp_key_toks ks) = (2 * length ks)%nat.
+Proof. induction ks as [|kq ks IH]; [reflexivity|]. cbn [rp_key_toks length]. rewrite IH. lia. Qed.
+
+Lemma rp_top_loop_root : forall k root ks rest,
+  top_loop (S (S k)) None (CTok (rp_root_tok root ks)) rest
+  = do (c, r, p) <- (let (c, r) := scan rest in
+                     path_loop k root false false [] (rp_root_str root) c r);
+    top_loop (S k) (Some (TopP p)) c r.
+Proof. intros k [|] ks rest; reflexivity. Qed.
+
+Lemma rp_parse_key_toks : forall uni root ks, Forall (good_key uni) ks ->
+  parse_tokens (rp_root_tok root ks :: rp_key_toks ks)
+  = Ok (TopP (Path false root false false (key_ops ks) (key_text root ks))).
+Proof.
+  intros uni root ks H. unfold parse_tokens. cbn [scan].
+  assert (Hfuel : exists f, parse_fuel (rp_root_tok root ks :: rp_key_toks ks) = S (S f)
+                            /\ (2 * length ks + 1 <= f)%nat).
+  { unfold parse_fuel. cbn [length]. rewrite rp_key_toks_length.
+    exists (3 * S (2 * length ks) + 6)%nat. split; lia. }
+  destruct Hfuel as (f & -> & Hf).
+  rewrite rp_top_loop_root.
+  rewrite (rp_path_loop_keys _ _ H) by exact Hf.
+  reflexivity.
+Qed.
+
+(* ------------------------------------------------------------------ *)
+(** * Main statements                                                   *)
+(* ------------------------------------------------------------------ *)
+
+Lemma rp_ops_keys_key_ops : forall ks, ops_keys (key_ops ks) ks.
+Proof.
+  intros ks. unfold ops_keys, key_ops. induction ks as [|kq ks IH]; constructor; [|exact IH].
+  exists (key_piece kq). reflexivity.
+Qed.
+
+Theorem C09_keypath_sprint : forall inv root isf me ops us ks,
+  ops_keys ops ks -> sprint_top (TopP (Path inv root isf me ops us)) = key_text root ks.
+Proof.
+  intros inv root isf me ops us ks H.
+  unfold sprint_top, key_text. cbn [path_us sprint_path]. unfold tabs. cbn [repeat app].
+  f_equal. unfold ops_keys in H.
+  induction H as [|o kq ops ks (us' & ->) _ IH]; [reflexivity|].
+  cbn [map concat]. rewrite IH. reflexivity.
+Qed.
+
+Theorem C09_keypath_reparse : forall uni root ks,
+  Forall (good_key uni) ks ->
+  parse_string uni (key_text root ks)
+  = Ok (TopP (Path false root false false (key_ops ks) (key_text root ks))).
+Proof.
+  intros uni root ks H. unfold parse_string.
+  rewrite (rp_lex_key_text _ root _ H). exact (rp_parse_key_toks _ root _ H).
+Qed.
+
+Corollary C09_keypath_fixed_point : forall uni inv root isf me ops us ks,
+  ops_keys ops ks -> Forall (good_key uni) ks ->
+  exists a', parse_string uni (sprint_top (TopP (Path inv root isf me ops us))) = Ok (TopP a') /\
+             sprint_top (TopP a') = sprint_top (TopP (Path inv root isf me ops us)) /\
+             path_us a' = sprint_top (TopP (Path inv root isf me ops us)).
+Proof.
+  intros uni inv root isf me ops us ks Hops Hgood.
+  rewrite (C09_keypath_sprint inv root isf me ops us ks Hops).
+  exists (Path false root false false (key_ops ks) (key_text root ks)).
+  split; [exact (C09_keypath_reparse uni root ks Hgood)|].
+  split; [|reflexivity].
+  apply C09_keypath_sprint, rp_ops_keys_key_ops.
+Qed.
+
+(** ASCII keys: a sufficient condition for [good_key] that needs no UTF-8 *)
+Definition good_key_ascii (uni : uclass) (kq : str * bool) : Prop :=
+  fst kq <> [] /\
+  Forall (fun c => byte c < 128 /\ is_ident_rune uni (byte c) = true) (fst kq) /\
+  (snd kq = false -> forall k', fst kq <> k' ++ bs "?").
+
+Lemma rp_ident_pos : forall uni c, is_ident_rune uni c = true -> c < 128 -> 0 < c.
+Proof.
+  intros uni c H Hc. unfold is_ident_rune in H.
+  destruct (zmem c invalid_runes || is_space uni c); [discriminate|].
+  unfold is_print in H. replace (c <? 128) with true in H by (symmetry; apply Z.ltb_lt; lia).
+  apply andb_true_iff in H. destruct H as [H _]. apply Z.leb_le in H. lia.
+Qed.
+
+Lemma rp_chars_ascii_str : forall uni k,
+  Forall (fun c => byte c < 128 /\ is_ident_rune uni (byte c) = true) k ->
+  chars_fuel (S (length k)) k = Some (map (fun c => (byte c, [c])) k) /\
+  forallb (fun rb => is_ident_rune uni (fst rb)) (map (fun c => (byte c, [c])) k) = true.
+Proof.
+  intros uni k H. induction H as [|c k (Hc & Hi) Hk (IH1 & IH2)]; [split; reflexivity|].
+  split.
+  - rewrite rp_chars_ascii by (split; [eapply rp_ident_pos; eauto|exact Hc]).
+    rewrite IH1. reflexivity.
+  - cbn [map forallb fst]. rewrite Hi, IH2. reflexivity.
+Qed.
+
+Lemma rp_good_key_ascii : forall uni kq, good_key_ascii uni kq -> good_key uni kq.
+Proof.
+  intros uni kq (Hne & Hall & Hq). split; [exact Hne|split; [|exact Hq]].
+  destruct (rp_chars_ascii_str _ _ Hall) as (H1 & H2). eauto.
+Qed.
+
+Corollary C09_keypath_reparse_ascii : forall uni root ks,
+  Forall (good_key_ascii uni) ks ->
+  parse_string uni (key_text root ks)
+  = Ok (TopP (Path false root false false (key_ops ks) (key_text root ks))).
+Proof.
+  intros uni root ks H. apply C09_keypath_reparse.
+  eapply Forall_impl; [|exact H]. intros kq. apply rp_good_key_ascii.
+Qed.
+
+(** ** Examples *)
+
+Example C09_keypath_ex1 :
+  parse_string uni_ascii (bs "$.a?.b")
+  = Ok (TopP (Path false true false false
+                [PIdent (bs "a") true (bs "a?"); PIdent (bs "b") false (bs "b")] (bs "$.a?.b"))).
+Proof. vm_compute. reflexivity. Qed.
+
+Example C09_keypath_ex2 :
+  parse_string uni_ascii (bs "@.items.price_2?")
+  = Ok (TopP (Path false false false false
+                [PIdent (bs "items") false (bs "items"); PIdent (bs "price_2") true (bs "price_2?")]
+                (bs "@.items.price_2?"))).
+Proof. vm_compute. reflexivity. Qed.
+
+Example C09_keypath_ex3 :
+  parse_string uni_ascii (bs "$") = Ok (TopP (Path false true false false [] (bs "$"))).
+Proof. vm_compute. reflexivity. Qed.
+
+(** the theorem instantiated, and agreeing with the computation *)
+Example C09_keypath_ex4 :
+  key_text true [(bs "a", true); (bs "b", false)] = bs "$.a?.b" /\
+  Forall (good_key uni_ascii) [(bs "a", true); (bs "b", false)].
+Proof.
+  split; [reflexivity|].
+  repeat constructor; cbn [fst snd]; try discriminate;
+    try (eexists; split; vm_compute; reflexivity);
+    intros _ [|c [|d k']]; discriminate.
+Qed.
+
+(** a two-byte rune (U+00E9) in a key, with a classifier that calls it printable *)
+Example C09_keypath_ex5 :
+  let uni := mkUclass (fun c => c =? 233) (fun _ => false) in
+  let k := [chr 99; chr 195; chr 169] in
+  good_key uni (k, false) /\
+  parse_string uni (bs "$." ++ k) = Ok (TopP (Path false true false false [PIdent k false k] (bs "$." ++ k))).
+Proof.
+  split.
+  - repeat split; cbn [fst snd]; try discriminate.
+    + eexists; split; vm_compute; reflexivity.
+    + intros _ [|a [|b [|c [|d k']]]]; discriminate.
+  - vm_compute. reflexivity.
+Qed.
+
+(** The corner case excluded by [good_key]: a key whose name ends in `?`,
+    printed without a mark, reads back as the shorter key with the mark set. *)
+Example C09_key_trailing_qmark_refuted : forall us us0,
+  let t := TopP (Path false true false false [PIdent (bs "a?") false us] us0) in
+  sprint_top t = bs "$.a?" /\
+  parse_string uni_ascii (sprint_top t)
+  = Ok (TopP (Path false true false false [PIdent (bs "a") true (bs "a?")] (bs "$.a?"))) /\
+  ~ good_key uni_ascii (bs "a?", false).
+Proof.
+  intros us us0 t.
+  assert (E : sprint_top t = bs "$.a?").
+  { unfold t. rewrite (C09_keypath_sprint _ _ _ _ _ _ [(bs "a?", false)]); [reflexivity|].
+    constructor; [|constructor]. exists us. reflexivity. }
+  split; [exact E|split].
+  - rewrite E. vm_compute. reflexivity.
+  - intros (_ & _ & Hq). exact (Hq eq_refl (bs "a") eq_refl).
+Qed.
+
+(** hence the hypothesis cannot simply be dropped from the reparse theorem *)
+Example C09_keypath_reparse_needs_good_key_refuted :
+  ~ (forall uni root ks,
+       parse_string uni (key_text root ks)
+       = Ok (TopP (Path false root false false (key_ops ks) (key_text root ks)))).
+Proof.
+  intros H. specialize (H uni_ascii true [(bs "a?", false)]).
+  vm_compute in H. discriminate H.
 Qed.
